@@ -166,6 +166,7 @@ REPO = os.environ.get("VERIF_REPO", "/repo")
 OUT = os.path.join(VERIF, "lean", "BarterModel", "Generated", "Machines.lean")
 OUT2 = os.path.join(VERIF, "lean", "BarterModel", "Generated", "Machines2.lean")
 OUT3 = os.path.join(VERIF, "lean", "BarterModel", "Generated", "Machines3.lean")
+OUT4 = os.path.join(VERIF, "lean", "BarterModel", "Generated", "Machines4.lean")
 
 SPOT = "barter-data/src/exchange/binance/spot/l2.rs"
 FUT = "barter-data/src/exchange/binance/futures/l2.rs"
@@ -208,6 +209,18 @@ ANAME = "barter-instrument/src/asset/name.rs"
 INAME = "barter-instrument/src/instrument/name.rs"
 MOCK = "barter-execution/src/exchange/mock/mod.rs"
 MACC = "barter-execution/src/exchange/mock/account.rs"
+ENG = "barter/src/engine/mod.rs"
+AUD = "barter/src/engine/audit/mod.rs"
+ACTX = "barter/src/engine/audit/context.rs"
+REPL = "barter/src/engine/audit/state_replica.rs"
+ILIB = "barter-instrument/src/lib.rs"
+IASSET = "barter-instrument/src/asset/mod.rs"
+IINSTR = "barter-instrument/src/instrument/mod.rs"
+ISPEC = "barter-instrument/src/instrument/spec.rs"
+IIDX = "barter-instrument/src/index/mod.rs"
+IBUILD = "barter-instrument/src/index/builder.rs"
+EMAP = "barter-execution/src/map.rs"
+EIDX = "barter-execution/src/indexer.rs"
 
 # (group, file, container, kind, name, options)     container: None = file top level, "mod x" or "impl X"
 MACHINES = [
@@ -422,10 +435,102 @@ MACHINES = [
     ("connectivity_updates", CONN, "impl ConnectivityStates", "fn", "update_from_account_event", {}),
     ("connectivity_updates", CONN, "impl ConnectivityStates", "fn", "update_from_market_reconnecting", {}),
     ("connectivity_updates", CONN, "impl ConnectivityStates", "fn", "update_from_market_event", {}),
+    # ---- fourth generated file (Machines4.lean) from here on
+    ("audit_seq", "barter/src/lib.rs", None, "struct", "Sequence", {}),
+    ("audit_seq", "barter/src/lib.rs", "impl Sequence", "fn", "value", {}),
+    ("audit_seq", "barter/src/lib.rs", "impl Sequence", "fn", "fetch_add", {}),
+    ("audit_seq", ACTX, None, "struct", "EngineContext", {}),
+    ("audit_seq", ENG, None, "struct", "EngineMeta", {}),
+    ("audit_seq", AUD, None, "struct", "AuditTick", {}),
+    ("audit_seq", CLOCK, None, "trait", "EngineClock", {}),
+    ("audit_seq", ENG, None, "struct", "Engine", {}),
+    ("audit_seq", ENG, "impl Engine<Clock, State, ExecutionTxs, Strategy, Risk>", "fn", "new", {}),
+    ("audit_seq", ENG, "impl Engine<Clock, State, ExecutionTxs, Strategy, Risk>", "fn", "time", {}),
+    ("audit_seq", ENG, "impl Engine<Clock, State, ExecutionTxs, Strategy, Risk>", "fn", "reset_metadata", {}),
+    ("audit_seq", AUD, "impl Auditor<Audit> for Engine", "fn", "audit", {}),
+    ("audit_seq", AUD, "impl Auditor<Audit> for Engine", "fn", "audit_snapshot", {}),
+    ("audit_seq", ENG, None, "trait", "Processor", {}),
+    ("audit_seq", AUD, None, "trait", "Auditor", {}),
+    ("audit_seq", ENG, None, "fn", "process_with_audit", {}),
+    ("audit_seq", "barter/src/engine/state/mod.rs", None, "abstract", "EngineState", {}),
+    ("audit_seq", REPL, None, "struct", "StateReplicaManager", {}),
+    ("audit_seq", REPL, "impl StateReplicaManager<State, Updates>", "fn", "new", {}),
+    ("audit_seq", REPL, "impl StateReplicaManager<EngineState<GlobalData, InstrumentData>, Updates>", "fn", "validate_and_update_context", {}),
+    ("exec_map+indexer", ILIB, None, "struct", "Keyed", {}),
+    ("exec_map+indexer", ILIB, None, "derive_new", "Keyed", {}),
+    ("exec_map+indexer", IASSET, None, "struct", "AssetIndex", {}),
+    ("exec_map+indexer", IASSET, None, "derive_new", "AssetIndex", {}),
+    ("exec_map+indexer", IASSET, "impl AssetIndex", "fn", "index", {}),
+    ("exec_map+indexer", IINSTR, None, "struct", "InstrumentIndex", {}),
+    ("exec_map+indexer", IINSTR, None, "derive_new", "InstrumentIndex", {}),
+    ("exec_map+indexer", IINSTR, "impl InstrumentIndex", "fn", "index", {}),
+    ("exec_map+indexer", EXCH, None, "derive_new", "ExchangeIndex", {}),
+    ("exec_map+indexer", ANAME, None, "opaque", "AssetNameInternal", {}),
+    ("exec_map+indexer", INAME, None, "opaque", "InstrumentNameInternal", {}),
+    ("exec_map+indexer", IASSET, None, "struct", "Asset", {"as": "AssetFull"}),
+    ("exec_map+indexer", IASSET, None, "struct", "ExchangeAsset", {}),
+    ("exec_map+indexer", "barter-instrument/src/instrument/quote.rs", None, "enum", "InstrumentQuoteAsset", {}),
+    ("exec_map+indexer", "barter-instrument/src/instrument/kind/perpetual.rs", None, "struct", "PerpetualContract", {}),
+    ("exec_map+indexer", "barter-instrument/src/instrument/kind/future.rs", None, "struct", "FutureContract", {}),
+    ("exec_map+indexer", "barter-instrument/src/instrument/kind/option.rs", None, "enum", "OptionKind", {}),
+    ("exec_map+indexer", "barter-instrument/src/instrument/kind/option.rs", None, "enum", "OptionExercise", {}),
+    ("exec_map+indexer", "barter-instrument/src/instrument/kind/option.rs", None, "struct", "OptionContract", {}),
+    ("exec_map+indexer", "barter-instrument/src/instrument/kind/mod.rs", None, "enum", "InstrumentKind", {}),
+    ("exec_map+indexer", ISPEC, None, "struct", "InstrumentSpecPrice", {}),
+    ("exec_map+indexer", ISPEC, None, "enum", "OrderQuantityUnits", {}),
+    ("exec_map+indexer", ISPEC, None, "struct", "InstrumentSpecQuantity", {}),
+    ("exec_map+indexer", ISPEC, None, "struct", "InstrumentSpecNotional", {}),
+    ("exec_map+indexer", ISPEC, None, "struct", "InstrumentSpec", {}),
+    ("exec_map+indexer", IINSTR, None, "struct", "Instrument", {"as": "InstrumentFull"}),
+    ("exec_map+indexer", "barter-instrument/src/index/error.rs", None, "enum", "IndexError", {}),
+    ("exec_map", XERR, None, "enum", "KeyError", {}),
+    ("exec_map+indexer", IIDX, None, "struct", "IndexedInstruments", {}),
+    ("exec_map+indexer", IIDX, "impl IndexedInstruments", "fn", "exchanges", {}),
+    ("exec_map+indexer", IIDX, "impl IndexedInstruments", "fn", "assets", {}),
+    ("exec_map+indexer", IIDX, "impl IndexedInstruments", "fn", "instruments", {}),
+    ("exec_map", EMAP, None, "struct", "ExecutionInstrumentMap", {}),
+    ("exec_map", EMAP, "impl ExecutionInstrumentMap", "fn", "new", {}),
+    ("exec_map", EMAP, "impl ExecutionInstrumentMap", "fn", "exchange_assets", {}),
+    ("exec_map", EMAP, "impl ExecutionInstrumentMap", "fn", "exchange_instruments", {}),
+    ("exec_map", EMAP, "impl ExecutionInstrumentMap", "fn", "find_exchange_id", {}),
+    ("exec_map", EMAP, "impl ExecutionInstrumentMap", "fn", "find_exchange_index", {}),
+    ("exec_map", EMAP, "impl ExecutionInstrumentMap", "fn", "find_asset_name_exchange", {}),
+    ("exec_map", EMAP, "impl ExecutionInstrumentMap", "fn", "find_asset_index", {}),
+    ("exec_map", EMAP, "impl ExecutionInstrumentMap", "fn", "find_instrument_name_exchange", {}),
+    ("exec_map", EMAP, "impl ExecutionInstrumentMap", "fn", "find_instrument_index", {}),
+    ("exec_map", EMAP, None, "fn", "generate_execution_instrument_map", {}),
+    ("exec_map", OMOD, None, "alias", "UnindexedOrderKey", {}),
+    ("exec_map", EIDX, None, "struct", "AccountEventIndexer", {}),
+    ("exec_map", EIDX, "impl AccountEventIndexer", "fn", "order_key", {}),
+    ("exec_map", EIDX, "impl AccountEventIndexer", "fn", "order_request", {}),
+    ("exec_map", EIDX, "impl AccountEventIndexer", "fn", "asset_balance", {}),
+    ("exec_map", EIDX, "impl AccountEventIndexer", "fn", "trade", {}),
+    ("indexer", IASSET, "impl ExchangeAsset<Asset>", "fn", "new", {}),
+    ("indexer", "barter-instrument/src/instrument/kind/mod.rs", "impl InstrumentKind<AssetKey>", "fn", "settlement_asset", {}),
+    ("indexer", ILIB, "impl Underlying<AssetKey>", "fn", "new", {}),
+    ("indexer", IINSTR, "impl Instrument<ExchangeKey, AssetKey>", "fn", "map_exchange_key", {}),
+    ("indexer", IINSTR, "impl Instrument<ExchangeKey, AssetKey>", "fn", "map_asset_key_with_lookup", {}),
+    ("indexer", IIDX, None, "fn", "find_exchange_by_exchange_id", {}),
+    ("indexer", IIDX, None, "fn", "find_asset_by_exchange_and_name_internal", {}),
+    ("indexer", IBUILD, None, "struct", "IndexedInstrumentsBuilder", {}),
+    ("indexer", IBUILD, None, "derive_default", "IndexedInstrumentsBuilder", {}),
+    ("indexer", IBUILD, "impl IndexedInstrumentsBuilder", "fn", "new", {}),
+    ("indexer", IBUILD, "impl IndexedInstrumentsBuilder", "fn", "add_instrument", {}),
+    ("indexer", IBUILD, "impl IndexedInstrumentsBuilder", "fn", "build", {}),
+    ("indexer", IIDX, "impl IndexedInstruments", "fn", "builder", {}),
+    ("indexer", IIDX, "impl IndexedInstruments", "fn", "new", {}),
+    ("indexer", IIDX, "impl IndexedInstruments", "fn", "find_exchange_index", {}),
+    ("indexer", IIDX, "impl IndexedInstruments", "fn", "find_exchange", {}),
+    ("indexer", IIDX, "impl IndexedInstruments", "fn", "find_asset_index", {}),
+    ("indexer", IIDX, "impl IndexedInstruments", "fn", "find_asset", {}),
+    ("indexer", IIDX, "impl IndexedInstruments", "fn", "find_instrument_index", {}),
+    ("indexer", IIDX, "impl IndexedInstruments", "fn", "find_instrument", {}),
 ]
 GROUPS = ["sequencer", "drawdown", "position_sm", "connectivity"]     # -> Generated/Machines.lean
 GROUPS2 = ["dataset", "pnl_returns", "registers", "risk", "metrics", "clock"]                                                 # -> Generated/Machines2.lean (imports the first)
 GROUPS3 = ["orders", "mock", "connectivity_updates"]                  # -> Generated/Machines3.lean (imports the second): MAP containers
+GROUPS4 = ["audit_seq", "exec_map", "indexer", "filters_actions", "send_requests"]   # -> Generated/Machines4.lean (imports the third): ITERATORS
+GROUPS34 = GROUPS3 + GROUPS4          # the groups that have the vocabulary of the third file
 
 PRELUDE = """\
 /-! ## Fixed prelude: the meaning given to the Rust vocabulary of the accepted subset
@@ -731,6 +836,121 @@ def Rust.IndexMap.values {K V : Type} (m : Rust.IndexMap K V) : Rust.Bag V := m.
 def Rust.IndexMap.len {K V : Type} (m : Rust.IndexMap K V) : Nat := m.length
 """
 
+AGREE4 = ["AuditSeqSM", "ExecMapSM", "IndexerSM", "FiltersActionsSM", "SendRequestsSM"]
+
+PRELUDE4 = """\
+/-! ## Prelude, continued: vocabulary added for the groups of this file (trusted like the preludes of Machines.lean ..
+Machines3.lean)
+
+* `a - b` on `u64` is `Rust.u64_sub a b`: the difference when `b <= a`, a PANIC (`Rust.unreachable`) otherwise -- the
+  arithmetic-overflow panic of a build with overflow checks (debug); a release build wraps around instead, which is
+  not modelled (like every other overflow).  An agreement theorem about a function that subtracts therefore only holds
+  where the subtraction cannot underflow.
+* ITERATORS ARE LISTS.  An iterator value is the LIST of the items it will yield, in order: `v.iter()` / `v.into_iter()` on a
+  `Vec<T>` or slice `&[T]` is the list itself; on an `IndexMap<K, V>` (insertion order IS meaningful) `m.iter()` is the list of
+  its pairs, `m.keys()` / `m.values()` the lists of their components; `o.iter()` / `o.into_iter()` on an `Option` is
+  `Option.toList`.  `HashMap::iter()` / `keys()` / `values()` stay REJECTED (hash order is not modelled) except
+  `values().all(p)` / `.any(p)` (Machines3.lean).  The adaptors are the list functions of core Lean, consumed at once:
+  `map` `List.map`, `filter` `List.filter`, `filter_map` `List.filterMap`, `find` `List.find?`, `find_map` `List.findSome?`,
+  `any` / `all` `List.any` / `List.all`, `flat_map(f)` `List.flatten (List.map f ..)` (`List.filterMap f` when `f` yields an
+  `Option`), `flatten`, `chain` `++`, `zip` `List.zip`, `count` `List.length`, `cloned` / `copied` the identity,
+  `enumerate` `Rust.Iter.enumerate` (pairs `(index, item)` from 0), `position(p)` `Rust.Iter.position` (index of the first
+  item satisfying `p`).  On a `Vec` / slice: `len`, `is_empty`, `contains`, `first`, `last`, `get(i)`.
+  LAZINESS IS NOT MODELLED, and need not be: a closure is accepted only as a PURE function value -- an expression (or a block
+  with early exits: `let x = e?;`, `return None`) over its parameter and the variables in scope, which it can read but never
+  assign, with no state-changing call inside -- so neither the number of times nor the moment it is evaluated can be observed,
+  and for code the borrow checker accepts no variable it reads can change while the iterator is alive.  A path naming a
+  one-argument function / method / variant (`Type::method`, `Enum::Variant`) is the same function value.
+* `collect()`: into a `Vec` the list itself; into an `IndexMap` `Rust.IndexMap.collect` -- `insert` of every pair in order,
+  where `Rust.IndexMap.insert` REPLACES THE VALUE IN PLACE when the key is present (the pair keeps the POSITION of its first
+  occurrence, the LAST value wins) and appends a new key at the end: the documented semantics of indexmap's
+  `FromIterator` / `Extend` ("equivalent to calling insert for each of them in order ... their value is updated but it keeps
+  the existing order ... the last corresponding value prevails", indexmap-2.x src/map.rs); into a `HashMap` / `FnvHashMap`
+  `Rust.Map.collect`, `Rust.Map.insert` of every pair in order (last value wins; position has no meaning).  The target
+  collection is what the context says (a field / parameter type, a `let` annotation, `collect::<Vec<_>>()`).
+  Lemmas/KernelsAgree/IterVocab.lean proves what these definitions amount to (`get` of a collected map is the LAST pair with
+  that key, its keys are the distinct keys in order of first occurrence, `position` / `enumerate` index from 0, ...).
+* `&[T]` is `List T` like `Vec<T>`; `_` in a type is left to the context.
+* `v.sort()` on a `Vec<T>` is `List.mergeSort v Ord_T` where `Ord_T : T → T → Bool` is an EXPLICIT PARAMETER standing for
+  `a <= b` of `T`'s `Ord` impl, which is NOT translated (`#[derive(Ord)]`: lexicographic in field / variant order): core's
+  `mergeSort` is a stable sort, and for a total preorder the stable sorted permutation is unique, so this is what Rust's
+  (stable) `slice::sort` returns whenever `Ord_T` is a total preorder; for any other `Ord_T` nothing is claimed (Rust leaves
+  the order unspecified and may panic).  `v.dedup()` is `Rust.Vec.dedup`: of every run of consecutive EQUAL elements the
+  first is kept (`PartialEq` of a fully translated type is `=`).  `iter.fold(init, |acc, x| e)` is `List.foldl`.
+* A parameter of function type -- `f: impl Fn(&A) -> R`, or `f: F` with `F: Fn(&A) -> R` in the `where` clause -- is a PURE
+  function value `A → R`; `f(a)` applies it; a closure passed for it is translated like the closures of the adaptors.
+  `iter: impl IntoIterator<Item = X>` / `I: IntoIterator<Item = X>` is the list of the items.
+* `let xs = it.collect();` whose target collection only a LATER use determines (`S { xs, .. }`) binds the item list; it is
+  converted where it is used at a collection type (Rust infers the one target from that use as well).
+* `res.expect(..)` / `res.unwrap()` on a `Result`: the `Err` arm is `Rust.unreachable`; `res.ok()` forgets the error.
+* `format!`: an argument that has no coding as a `Rust.FmtArg` (a struct, a list, ..) is not recorded (the text of a message
+  is not modelled).
+* `a == b` / `a != b` on values of a FULLY translated struct whose `#[derive(..)]` lists `PartialEq` is field-wise equality:
+  Lean's `=` (decidable by the derived `DecidableEq`).
+* A struct that an earlier generated file has in a RESTRICTED form (`Instrument`, of which Machines3.lean keeps `underlying`)
+  or as an opaque identifier (`Asset`) is translated again, in full, under another Lean name (item option `as`:
+  `InstrumentFull`, `AssetFull`); in the groups of this file the Rust name means that full translation.
+* A type parameter of a fn that is named like a translated type (`fn process_with_audit<Event, Engine>`) is renamed `<name>T`
+  throughout the item.  An item of kind `abstract` (`EngineState`) is a type of the source that is NOT translated: it is a
+  type parameter `{Name : Type}` of every definition that mentions it (its values are only stored and moved).
+* TRAITS: a (generic) trait is the record of its methods, its type parameters being `Self`, the trait's own and its
+  associated types; `fn m(&mut self, x) -> R` is the field `m : Self → X → Self × R`; a method with type parameters of its own
+  and a bound `P: From<K>` is a polymorphic field taking the conversion `K → P` explicitly.  In a fn, `T: Trait<A, Name = Ty>`
+  of its `where` clause makes `x.m(..)` on a value of the type parameter `T` the field `m` of the explicit parameter
+  `T_Trait : Trait T A <associated types>`; `T::Name` is `Ty` if the bound binds it, else a further type parameter `T_Name`.
+  `T::from(x)` with `T: From<U>` is the explicit parameter `T_from : U → T`, which every translated caller supplies (the
+  identity where `U` is `T`).  Which `impl` a call resolves to is NOT modelled: agreement theorems quantify over the records
+  or plug in the generated methods of the `impl` by hand (stated where they do).
+* A state-changing call (`&mut self` method, `push`, ..) BELOW the top of an expression, in a position that is always
+  evaluated, is taken out as `let call_n = <call>;` in evaluation order, provided nothing evaluated before it in that
+  expression reads the variable it changes.
+-/
+
+/-- `a - b` on `u64` (see above). -/
+def Rust.u64_sub (a b : Nat) : Nat := if b ≤ a then a - b else Rust.unreachable
+
+/-- `m.keys()` on an `IndexMap`: the keys in insertion order. -/
+def Rust.IndexMap.keys {K V : Type} (m : Rust.IndexMap K V) : List K := m.map (·.1)
+
+/-- `m.insert(k, v)` on an `IndexMap` (the map afterwards): the value replaced IN PLACE if the key is present, else the pair
+appended. -/
+def Rust.IndexMap.insert {K V : Type} [DecidableEq K] (m : Rust.IndexMap K V) (k : K) (v : V) : Rust.IndexMap K V :=
+  match m with
+  | [] => [(k, v)]
+  | (k', v') :: rest => if k' = k then (k', v) :: rest else (k', v') :: Rust.IndexMap.insert rest k v
+
+/-- `iter.collect::<IndexMap<K, V>>()`: `insert` of every pair, in order. -/
+def Rust.IndexMap.collect {K V : Type} [DecidableEq K] (l : List (K × V)) : Rust.IndexMap K V :=
+  l.foldl (fun m kv => Rust.IndexMap.insert m kv.1 kv.2) []
+
+/-- `iter.collect::<HashMap<K, V>>()`: `insert` of every pair, in order (the last value of a key wins). -/
+def Rust.Map.collect {K V : Type} [DecidableEq K] (l : List (K × V)) : Rust.Map K V :=
+  l.foldl (fun m kv => Rust.Map.insert m kv.1 kv.2) []
+
+/-- `v.dedup()`: consecutive repeated elements removed (the first of a run is kept; `PartialEq` of a fully translated type
+is `=`). -/
+def Rust.Vec.dedup {T : Type} [DecidableEq T] : List T → List T
+  | [] => []
+  | [a] => [a]
+  | a :: b :: t => if a = b then Rust.Vec.dedup (b :: t) else a :: Rust.Vec.dedup (b :: t)
+
+/-- `iter.enumerate()` counting from `i`. -/
+def Rust.Iter.enumerate_from {T : Type} (i : Nat) : List T → List (Nat × T)
+  | [] => []
+  | x :: xs => (i, x) :: Rust.Iter.enumerate_from (i + 1) xs
+
+/-- `iter.enumerate()`: `(0, x0), (1, x1), ..`. -/
+def Rust.Iter.enumerate {T : Type} (l : List T) : List (Nat × T) := Rust.Iter.enumerate_from 0 l
+
+/-- `iter.position(p)`: the index of the first item satisfying `p`. -/
+def Rust.Iter.position {T : Type} (p : T → Bool) : List T → Option Nat
+  | [] => none
+  | x :: xs => if p x then some 0 else (Rust.Iter.position p xs).map (· + 1)
+"""
+
+
+LEAN_RESERVED = set(LEAN_RESERVED) | {"meta"}      # (`meta` became a keyword of Lean 4; no item of the first three files uses it)
+
 
 def lean_id(x):
     return f"«{x}»" if x in LEAN_RESERVED else x
@@ -960,7 +1180,7 @@ def lookup_candidates(world, cont, name):
                 cands = [(rel, a, b, [], None, None, None) for a, b in fn_spans(text, 0, len(text), name)]
         elif cont in world.structs or cont in world.enums:
             for lo, hi, gs, tr, ty in impl_blocks(text):
-                if base_name(ty) == cont:
+                if world.rn(base_name(ty)) == cont:
                     label = "impl " + ("".join(tr) + " for " if tr else "") + "".join(ty)
                     cands += [(rel, a, b, gs, ty, label, (lo, hi) if tr else None) for a, b in fn_spans(text, lo, hi, name)]
         else:
@@ -1134,6 +1354,7 @@ class Parser:
 
     def generics(self):
         gs = []
+        self.generic_defaults = {}       # type parameter -> tokens of its default type argument (`Context = EngineContext`)
         if self.peek() == "<":
             self.next()
             while self.peek() != ">":
@@ -1147,7 +1368,7 @@ class Parser:
                 if self.peek() == "=":
                     # default type argument: irrelevant here, every use of the type must give all arguments
                     self.next()
-                    self.type_tokens({","})
+                    self.generic_defaults[g] = self.type_tokens({","})
                 gs.append(g)
                 if self.peek() == ",":
                     self.next()
@@ -1291,6 +1512,8 @@ class Parser:
             self.next()
             ret = self.type_tokens({"where", "{"})
         self.where_into = {}
+        self.where_from = {}         # `T: From<U>`: type parameter -> tokens of U (what `T::from(x)` converts from)
+        self.where_bounds = {}       # type parameter -> [tokens of each bound `Trait<Args, Name = Ty>`]
         if self.peek() == "where":
             # bounds of generic parameters only say which operators T has; skipped -- except `T: Into<U>`, which says
             # what `x.into()` of a value of the type parameter T is: the explicit conversion parameter `T_into : T -> U`
@@ -1312,7 +1535,7 @@ class Parser:
             if cur:
                 clauses.append(cur)
             for cl in clauses:
-                if len(cl) > 3 and cl[1] == ":" and re.fullmatch(r"[A-Za-z_]\w*", cl[0]):
+                if len(cl) >= 3 and cl[1] == ":" and re.fullmatch(r"[A-Za-z_]\w*", cl[0]):
                     d, cur, bounds = 0, [], []
                     for x in cl[2:]:
                         if x in ("<", "(", "["):
@@ -1328,6 +1551,10 @@ class Parser:
                     for b in bounds:
                         if len(b) > 3 and b[0] == "Into" and b[1] == "<" and b[-1] == ">":
                             self.where_into[cl[0]] = b[2:-1]
+                        elif len(b) > 3 and b[0] == "From" and b[1] == "<" and b[-1] == ">":
+                            self.where_from.setdefault(cl[0], []).append(b[2:-1])
+                        if b:
+                            self.where_bounds.setdefault(cl[0], []).append(b)
         if sig_only:
             if self.peek() != "{":
                 raise Reject(f"`{self.peek()}` where the function body should start")
@@ -1640,18 +1867,29 @@ class Parser:
         if self.next() == "||":
             param = None
         else:
-            if self.peek() == "(":
-                param = self.pattern()
-                if not (param[0] == "ptuple" and all(q[0] in ("pbind", "pwild") and not (q[0] == "pbind" and q[2]) for q in param[1])):
-                    raise Reject("closure parameter pattern other than `|x|` / `|(a, b)|`")
-            elif self.peek() in ("&", "mut", "_") or self.kind() != "id":
-                raise Reject(f"closure parameter pattern starting `{self.peek()}` (only `|x|` / `|(a, b)|`)")
-            else:
-                param = self.ident()
-            if self.peek() == ":":
-                raise Reject("typed closure parameter")
-            if self.peek() == ",":
-                raise Reject("closure with several parameters")
+            params = []
+            while True:
+                if self.peek() == "(":
+                    param = self.pattern()
+                    if not (param[0] == "ptuple" and all(q[0] in ("pbind", "pwild") and not (q[0] == "pbind" and q[2]) for q in param[1])):
+                        raise Reject("closure parameter pattern other than `|x|` / `|(a, b)|`")
+                elif self.peek() == "_":
+                    self.next()
+                    param = ("pwild",)
+                elif self.peek() in ("&", "mut") or self.kind() != "id":
+                    raise Reject(f"closure parameter pattern starting `{self.peek()}` (only `|x|` / `|(a, b)|`)")
+                else:
+                    param = self.ident()
+                if self.peek() == ":":
+                    # a typed parameter `|x: &T|`: the annotation is skipped (the type comes from where the closure is used)
+                    self.next()
+                    self.type_tokens({",", "|"})
+                params.append(param)
+                if self.peek() == ",":
+                    self.next()          # several parameters `|acc, x|` (fourth file: `fold`): a LIST of parameters
+                    continue
+                break
+            param = params[0] if len(params) == 1 else params
             self.eat("|")
         if self.peek() == "->":
             raise Reject("closure with a return type")
@@ -1674,6 +1912,23 @@ class Parser:
                 name = self.ident()
                 if name == "await":
                     raise Reject("`.await`")
+                if self.peek() == "::" and name == "collect" and self.peek(1) == "<":
+                    # `.collect::<Vec<_>>()`: the target collection (fourth file); kept as a pseudo argument
+                    self.next(); self.next()
+                    tt, d = [], 1
+                    while True:
+                        x = self.next()
+                        if x == "<end>":
+                            raise Reject("unterminated turbofish")
+                        d += x == "<"
+                        d -= x == ">"
+                        if d == 0:
+                            break
+                        tt.append(x)
+                    self.eat("(")
+                    self.eat(")")
+                    e = ("mcall", e, "collect", [("tyarg", tt)])
+                    continue
                 if self.peek() == "::":
                     raise Reject(f"turbofish on `.{name}`")
                 if name == "expect" and self.peek() == "(" and self.peek(1) == '"' and self.peek(2) == '"' and self.peek(3) == ")":
@@ -1903,8 +2158,10 @@ def ty_lean(t):
         return f"Rust.IndexMap {ty_atom(t[1])} {ty_atom(t[2])}"
     if k == "bag":
         return f"Rust.Bag {ty_atom(t[1])}"
-    if k == "seq":
+    if k in ("seq", "pending"):
         return f"List {ty_atom(t[1])}"
+    if k == "fn":
+        return " → ".join([ty_atom(a) for a in t[1]] + [ty_atom(t[2])]) if t[1] else f"Unit → {ty_atom(t[2])}"
     if k == "entry":
         return f"Rust.Entry {ty_atom(t[1])} {ty_atom(t[2])}"
     if k == "occ":
@@ -1914,7 +2171,8 @@ def ty_lean(t):
     if k == "enum" and len(t) == 3:
         return " ".join([ty_name(t[1])] + [ty_atom(a) for a in t[2]])
     if k == "opt":
-        return f"Option {ty_atom(t[1])}"
+        # (a translated enum may have a VARIANT named `Option`: inside `def E.f ..` Lean would read `Option` as `E.Option`)
+        return ("_root_.Option" if "Option" in VARIANT_NAMES else "Option") + f" {ty_atom(t[1])}"
     if k == "res":
         return f"Except {ty_atom(t[2])} {ty_atom(t[1])}"
     if k == "struct":
@@ -1957,8 +2215,10 @@ def ty_rust(t):
         return f"RwLock<{ty_rust(t[1])}>"
     if k in MAPLIKE:
         return ("HashMap" if k == "map" else "IndexMap") + f"<{ty_rust(t[1])}, {ty_rust(t[2])}>"
-    if k in ("bag", "seq"):
+    if k in ("bag", "seq", "pending"):
         return f"impl Iterator<Item = {ty_rust(t[1])}>"
+    if k == "fn":
+        return "Fn(" + ", ".join(ty_rust(a) for a in t[1]) + f") -> {ty_rust(t[2])}"
     if k in ENTRYLIKE:
         return {"entry": "Entry", "occ": "OccupiedEntry", "vac": "VacantEntry"}[k] + f"<{ty_rust(t[1])}, {ty_rust(t[2])}>"
     if k == "enum" and len(t) == 3:
@@ -1968,6 +2228,10 @@ def ty_rust(t):
 
 def ty_children(t):
     """the component types of a type constructor added for the map vocabulary / generic enums (None: not one of them)"""
+    if t[0] == "fn":
+        return list(t[1]) + [t[2]]            # (fourth file) `Fn(A, B) -> R`: a pure function value
+    if t[0] == "pending":
+        return [t[1]]                         # (fourth file) `iter.collect()` whose target collection a LATER use decides
     if t[0] in MAPLIKE or t[0] in ENTRYLIKE:
         return [t[1], t[2]]
     if t[0] in ("bag", "seq"):
@@ -1978,6 +2242,10 @@ def ty_children(t):
 
 
 def ty_rebuild(t, cs):
+    if t[0] == "fn":
+        return ("fn", tuple(cs[:-1]), cs[-1])
+    if t[0] == "pending":
+        return ("pending", cs[0])
     if t[0] in MAPLIKE:
         return (t[0], cs[0], cs[1])
     if t[0] in ENTRYLIKE:
@@ -2015,6 +2283,8 @@ def unify(a, b):
         return b if b in (NAT, INT) else None
     if b == INTLIT:
         return a if a in (NAT, INT) else None
+    if a[0] == "fn" and b[0] == "fn" and len(a[1]) != len(b[1]):
+        return None
     if {a[0], b[0]} == {"bag", "seq"}:
         u = unify(a[1], b[1])             # an ordered iterator where an unordered collection is expected: the order is forgotten
         return ("bag", u) if u else None
@@ -2093,6 +2363,11 @@ def match_ty(pat, actual, m):
     return pat == actual
 
 
+def tvars_primed(t):
+    """does the type mention a type variable of a CALLEE that the call has not determined yet (`'T`, see Fn.instance)"""
+    return any(v.startswith("'") for v in tvars_of(t))
+
+
 def tvars_of(t, acc=None):
     acc = [] if acc is None else acc
     if t[0] == "tvar":
@@ -2117,6 +2392,7 @@ def tvars_of(t, acc=None):
 class Struct:
     def __init__(self, name, generics, tuple_, fields, dropped):
         self.name, self.generics, self.tuple, self.fields, self.dropped = name, generics, tuple_, fields, dropped
+        self.defaults = {}        # type parameter -> tokens of its default type argument (`struct AuditTick<Kind, Context = EngineContext>`)
 
     def field(self, f, targs):
         for n, t in self.fields:
@@ -2201,6 +2477,18 @@ class World:
         self.inhabited = {}       # struct / enum name -> does it have a (derived) `Inhabited` instance (ensure_inhabited)
         self.accessors = {}       # (struct, method) -> parsed `&mut`-returning accessor found by lookup | None (user_lens)
         self.opaque_generic = set()   # opaque identifier types whose type arguments are ignored
+        self.renames = {}             # Rust struct name -> Lean name it has for the groups of the fourth file (item option `as`)
+        self.abstract = set()         # untranslated types of the source that are type PARAMETERS of what mentions them (kind `abstract`)
+        self.trait_info = {}          # generic traits / traits with `&mut self` methods (PRELUDE4): name -> TraitInfo
+        self.tvar_op_var = {}         # extern of the form `T_Trait` / `T_ord` -> the type parameter `T` it belongs to
+
+    def rn(self, name):
+        """(fourth file) the Lean name a Rust struct is translated under for the groups of the fourth file: a struct that an
+        earlier file has in a RESTRICTED form (`Instrument`, keep = underlying) is translated again, in full, under another
+        name (item option `as`), and every mention of the Rust name in the groups of the fourth file means that one"""
+        if self.ctx is not None and self.ctx.groups[0] in GROUPS4:
+            return self.renames.get(name, name)
+        return name
 
     def alias_base(self, name):
         """the struct a type alias stands for (`OrderRequestOpen` -> `OrderEvent`), followed through aliases; else the name"""
@@ -2226,6 +2514,8 @@ class TypeResolver:
     def __init__(self, world, self_ty=None, tvars=(), assoc=None):
         self.w, self.self_ty, self.tvars = world, self_ty, set(tvars)
         self.assoc = assoc or {}      # associated types of the enclosing trait impl: name -> type tokens (`Self::Name`)
+        self.proj = {}                # (fourth file) (type parameter T, Name) -> type of `T::Name` | ("toks", tokens): see compile_fn
+        self.proj_tvars = []          # the type parameters `T_Name` that stand for unbound associated types, in order of first use
 
     def resolve(self, toks):
         self.t, self.i = list(toks) + ["<eot>"], 0
@@ -2233,6 +2523,16 @@ class TypeResolver:
         if self.t[self.i] != "<eot>":
             raise Reject(f"type `{' '.join(toks)}`")
         return t
+
+    def skip_plus_bounds(self):
+        """`+ Copy + 'a` after `impl Trait` / a `Fn(..)` bound: further bounds say nothing about the value"""
+        while self.t[self.i] == "+":
+            if self.t[self.i + 1] == "'":
+                self.i += 3
+            elif self.t[self.i + 1] in ("Copy", "Clone", "Send", "Sync", "Debug", "Sized"):
+                self.i += 2
+            else:
+                raise Reject(f"bound `+ {self.t[self.i + 1]}` in a type")
 
     def try_resolve(self, toks):
         try:
@@ -2262,8 +2562,45 @@ class TypeResolver:
                 raise Reject("tuple type")
             self.i += 1
             return ts[0] if len(ts) == 1 else ("tuple", tuple(ts))
+        if v == "[" and self.w.ctx is not None and self.w.ctx.groups[0] in GROUPS4:
+            t = self.ty()                 # a slice `[T]` (behind `&`): the list of its elements, like `Vec<T>`
+            if self.t[self.i] != "]":
+                raise Reject("array type `[T; n]`")
+            self.i += 1
+            return ("list", t)
+        if v == "_" and self.w.ctx is not None and self.w.ctx.groups[0] in GROUPS4:
+            return HOLE
         if not re.fullmatch(r"[A-Za-z_]\w*", v):
             raise Reject(f"type starting with `{v}`")
+        g4 = self.w.ctx is not None and self.w.ctx.groups[0] in GROUPS4
+        if g4 and v == "impl" and self.t[self.i] in ("Fn", "FnMut", "FnOnce", "IntoIterator"):
+            v = self.t[self.i]
+            self.i += 1
+        if g4 and v in ("Fn", "FnMut", "FnOnce") and self.t[self.i] == "(":
+            # `Fn(&A, B) -> R` (a bound of a type parameter / `impl Fn(..) -> R`): a PURE function value `A → B → R` (PRELUDE4)
+            self.i += 1
+            args = []
+            while self.t[self.i] != ")":
+                args.append(self.ty())
+                if self.t[self.i] == ",":
+                    self.i += 1
+                elif self.t[self.i] != ")":
+                    raise Reject("type `Fn(..)`")
+            self.i += 1
+            ret = UNIT
+            if self.t[self.i] == "->":
+                self.i += 1
+                ret = self.ty()
+            self.skip_plus_bounds()
+            return ("fn", tuple(args), ret)
+        if g4 and v == "IntoIterator" and self.t[self.i:self.i + 3] == ["<", "Item", "="]:
+            self.i += 3
+            item = self.ty()
+            if self.t[self.i] != ">":
+                raise Reject("type `IntoIterator<..>`")
+            self.i += 1
+            self.skip_plus_bounds()
+            return ("seq", item)              # whatever it is, `.into_iter()` yields these items in order
         if v == "impl" and self.t[self.i:self.i + 4] == ["Iterator", "<", "Item", "="]:
             # `impl Iterator<Item = &T>` (`+ '_`): what `values()` yields, a collection without a meaningful order whose only
             # accepted consumers are `all` / `any` (PRELUDE3: `Rust.Bag`)
@@ -2274,7 +2611,22 @@ class TypeResolver:
             self.i += 1
             if self.t[self.i:self.i + 3] == ["+", "'", "_"]:
                 self.i += 3
+            if self.w.ctx is not None and self.w.ctx.groups[0] in GROUPS4:
+                return ("seq", item)      # (fourth file) an ORDERED iterator: the list of its items (hash-ordered values do not fit: `fit`)
             return ("bag", item)
+        if v in self.tvars and self.t[self.i] == "::" and (v, self.t[self.i + 1]) in self.proj:
+            key = (v, self.t[self.i + 1])
+            self.i += 2
+            if self.proj[key][0] == "toks":
+                toks, self.proj[key] = self.proj[key][1], ("busy",)
+                sub = TypeResolver(self.w, self.self_ty, self.tvars)
+                sub.proj, sub.proj_tvars = self.proj, self.proj_tvars
+                self.proj[key] = sub.resolve(toks)
+            if self.proj[key] == ("busy",):
+                raise Reject(f"`{key[0]}::{key[1]}` is defined in terms of itself")
+            if self.proj[key][0] == "tvar" and self.proj[key][1] == f"{key[0]}_{key[1]}" and self.proj[key][1] not in self.proj_tvars:
+                self.proj_tvars.append(self.proj[key][1])
+            return self.proj[key]
         if v == "Self" and self.t[self.i] == "::" and self.t[self.i + 1] in self.assoc:
             # `Self::Name` with `type Name = ..;` in the same trait impl
             toks = self.assoc[self.t[self.i + 1]]
@@ -2284,6 +2636,7 @@ class TypeResolver:
         while self.t[self.i] == "::":
             v = self.t[self.i + 1]
             self.i += 2
+        v = self.w.rn(v)
         args = []
         if self.t[self.i] == "<":
             self.i += 1
@@ -2297,7 +2650,7 @@ class TypeResolver:
         simple = {"u64": NAT, "usize": NAT, "i64": INT, "Decimal": DEC, "bool": BOOL, "TimeDelta": DELTA, "f64": F64}
         if v in simple and not args:
             return simple[v]
-        if v == "String" and not args and self.w.ctx is not None and self.w.ctx.groups[0] in GROUPS3:
+        if v == "String" and not args and self.w.ctx is not None and self.w.ctx.groups[0] in GROUPS34:
             return STR
         if v == "DateTime" and len(args) == 1 and args[0] == ("enum", "Utc"):
             return TIME
@@ -2331,7 +2684,16 @@ class TypeResolver:
             return ("res", args[0], args[1])
         if v in self.tvars and not args:
             return ("tvar", v)
+        if v in self.w.abstract and v not in self.tvars:
+            # a type of the source that is NOT translated (kind `abstract`): a type PARAMETER of every definition that mentions
+            # it; its own type arguments are ignored (its values are only stored and moved)
+            return ("tvar", v)
         if v in self.w.structs:
+            st = self.w.structs[v]
+            if len(args) < len(st.generics) and all(g in st.defaults for g in st.generics[len(args):]):
+                # default type arguments (`AuditTick<State>` is `AuditTick<State, EngineContext>`)
+                for g in st.generics[len(args):]:
+                    args.append(TypeResolver(self.w, None, ()).resolve(st.defaults[g]))
             if len(args) != len(self.w.structs[v].generics):
                 raise Reject(f"type `{v}` with {len(args)} type arguments")
             return ("struct", v, tuple(args))
@@ -2392,6 +2754,8 @@ class Compiler:
         self.tr = resolver
         self.globs = []          # enums whose variants are in scope through `use Enum::*;`
         self.into_bounds = {}    # type parameter -> target type of its `Into<..>` bound (cx_into)
+        self.from_bounds = {}    # type parameter -> source types of its `From<..>` bounds (`T::from(x)`, fourth file)
+        self.bounds = {}         # type parameter -> [(trait, [argument tokens], {associated type: tokens})] (fourth file, compile_fn)
         self.externs = []        # extern functions this definition needs (directly or through a callee), in order
 
     def fresh(self, base):
@@ -2430,30 +2794,43 @@ class Compiler:
                     raise Reject(f"call of `{fn.lean}`, whose conversion parameter `{x}` this call does not determine")
                 parts.append(conv[x])
                 continue
+            if x in self.w.tvar_ops and conv and x in conv:
+                self.need_extern(x)          # the caller's own parameter of that name: the callee's type parameter IS the caller's
+                parts.append(conv[x])
+                continue
             if x in self.w.tvar_ops:
                 raise Reject(f"call of `{fn.lean}`, which is parameterised by the ordering of a type parameter (`{x}`)")
             self.need_extern(x)
             parts.append(x)
         return " ".join(parts)
 
-    def call_convs(self, fn, vs, recv_ty=None):
-        """the conversion functions a call supplies for the callee's `T: Into<U>` bounds: `T` is what the arguments say"""
-        if not any(x in self.w.conv_ops for x in fn.externs):
+    def call_convs(self, fn, vs, recv_ty=None, expect=None):
+        """the conversion functions a call supplies for the callee's `T: Into<U>` / `T: From<U>` bounds: the callee's type
+        parameters are what the receiver / the arguments / (fourth file) the expected result type say.  A parameter that
+        belongs to a type parameter of the callee (`T_Trait`, `T_ord`) is the caller's own parameter of that name when the
+        callee's `T` is instantiated with the caller's type parameter `T` itself (fourth file)."""
+        if not any(x in self.w.conv_ops or x in self.w.tvar_op_var for x in fn.externs):
             return None
         m = {}
         if recv_ty is not None and fn.self_ty is not None:
             match_ty(fn.self_ty, recv_ty, m)
         for (_, pt), v in zip(fn.params, vs):
             match_ty(pt, v.ty, m)
+        if expect is not None and self.w.ctx is not None and self.w.ctx.groups[0] in GROUPS4:
+            match_ty(fn.ret, expect, m)
         out = {}
         for x in fn.externs:
             if x in self.w.conv_ops:
-                tv, tgt = self.w.conv_ops[x]
-                if tv not in m or m[tv] == HOLE:
-                    raise Reject(f"call of `{fn.lean}`: the type argument `{tv}` is not determined by the arguments")
-                f, _ = self.conversion(m[tv], tgt)
+                src, dst = self.w.conv_ops[x]
+                for tv in tvars_of(src) + tvars_of(dst):
+                    if tv not in m or m[tv] == HOLE:
+                        raise Reject(f"call of `{fn.lean}`: the type argument `{tv}` is not determined by the arguments")
+                f, _ = self.conversion(subst(src, m), subst(dst, m))
                 y = self.fresh("x")
                 out[x] = f"(fun {y} => {y})" if f is None else f"(fun {y} => {f} {y})"
+            elif x in self.w.tvar_op_var and m.get(self.w.tvar_op_var[x]) == ("tvar", self.w.tvar_op_var[x]) \
+                    and self.w.ctx is not None and self.w.ctx.groups[0] in GROUPS4:
+                out[x] = lean_id(x)
         return out
 
     @staticmethod
@@ -2469,6 +2846,21 @@ class Compiler:
     def fit(self, v, expect, what="value"):
         if expect is None:
             return v
+        if v.ty[0] == "pending" and expect[0] in ("list", "map", "imap"):
+            if expect[0] == "list":
+                u = unify(v.ty[1], expect[1])
+                if u is None:
+                    raise Reject(f"{what}: collected items of type {ty_rust(v.ty[1])} where {ty_rust(expect)} is required")
+                v.ty = ("list", u)
+                return v
+            u = unify(v.ty[1], ("tuple", (expect[1], expect[2])))
+            if u is None:
+                raise Reject(f"{what}: collected items of type {ty_rust(v.ty[1])} where {ty_rust(expect)} is required")
+            v.text = f"({'Rust.Map' if expect[0] == 'map' else 'Rust.IndexMap'}.collect {atom(v.text)})"
+            v.ty = (expect[0], u[1][0], u[1][1])
+            return v
+        if expect[0] == "seq" and v.ty[0] == "bag":
+            raise Reject(f"{what}: an iterator in HASH order where an ordered iterator is required (the order of a `HashMap` is not modelled)")
         u = unify(v.ty, expect)
         if u is None:
             raise Reject(f"{what} of type {ty_rust(v.ty)} where {ty_rust(expect)} is required")
@@ -2486,7 +2878,7 @@ class Compiler:
         return lean, env
 
     def struct_of(self, segs):
-        name = segs[-1]
+        name = self.w.rn(segs[-1])
         if name == "Self":
             if not self.self_ty or self.self_ty[0] != "struct":
                 raise Reject("`Self` outside an impl of a translated struct")
@@ -2514,9 +2906,15 @@ class Compiler:
             parts = []
             for a in e[1]:
                 v = self.cx(a, env, ind)
+                while v.ty[0] == "struct" and self.w.structs[v.ty[1]].tuple and len(self.w.structs[v.ty[1]].fields) == 1 \
+                        and not self.w.structs[v.ty[1]].dropped:
+                    # a newtype `struct S(T);`: its text is determined by the text of its one field, which is what is recorded
+                    v = self.cx(("field", ("lean", v.text, v.ty), "0"), env, ind)
                 if v.ty == INTLIT:
                     raise Reject("`format!` of an integer literal of unknown width")
                 kind = {"dec": "dec", "nat": "nat", "int": "int", "time": "int", "delta": "int", "opaque": "id", "idstr": "id"}.get(v.ty[0])
+                if kind is None and self.w.ctx is not None and self.w.ctx.groups[0] in GROUPS4:
+                    continue          # (fourth file) the text of a message is not modelled: only its scalar arguments are recorded
                 if kind is None:
                     raise Reject(f"`format!` argument of type {ty_rust(v.ty)} (only Decimal / integers / times / identifier types)")
                 parts.append(f"Rust.FmtArg.{kind} {atom(self.val(v))}")
@@ -2611,6 +3009,8 @@ class Compiler:
             return V(f"(match {self.val(s)} with\n" + "\n".join(out) + ")", u)
         if k == "block":
             return self.pure_block(e, env, ind, expect)
+        if k == "closure" and expect is not None and expect[0] == "fn" and self.w.ctx is not None and self.w.ctx.groups[0] in GROUPS4:
+            return self.cx_closure(e, expect[1], env, ind, expect[2] if not has_hole(expect[2]) and not tvars_primed(expect[2]) else None)
         if k == "closure":
             raise Reject("closure (accepted only as the argument of Option::{map, is_none_or, is_some_and})")
         if k == "mutref":
@@ -2679,7 +3079,7 @@ class Compiler:
 
     def lookup_fn(self, segs):
         name = segs[-1]
-        cont = segs[-2] if len(segs) > 1 else None
+        cont = self.w.rn(segs[-2]) if len(segs) > 1 else None
         if cont == "Self":
             cont = self.self_ty[1] if self.self_ty else None
         return (cont, name)
@@ -2701,7 +3101,7 @@ class Compiler:
         sibling = (ctx.container.split()[1], key[1]) if key[0] is None and ctx and ctx.container and ctx.container.startswith("mod ") else None
         if sibling is not None and (sibling in self.w.fns or sibling in self.w.generic_fns):
             return self.w.fns.get(sibling)
-        if ctx is None or ctx.groups[0] not in GROUPS3:
+        if ctx is None or ctx.groups[0] not in GROUPS34:
             return None          # (the first two files: no `&mut` parameters; nothing is looked up ahead of cx_call)
         try:
             key = aux_translate(self.w, key[0], key[1]) or key
@@ -2717,6 +3117,13 @@ class Compiler:
                 expect = TypeResolver(self.w, None, ()).resolve([segs[-2]])
             segs = segs[:-2] + [self.w.alias_base(segs[-2]), segs[-1]]
         name = segs[-1]
+        if len(segs) == 1 and name in env and env[name].ty[0] == "fn":
+            # (fourth file) a parameter / local of function type applied to arguments
+            ft = env[name].ty
+            if len(args) != len(ft[1]):
+                raise Reject(f"call of `{name}` with {len(args)} arguments")
+            vs = [self.cx(a, env, ind, t) for a, t in zip(args, ft[1])]
+            return V("(" + " ".join([env[name].lean] + ([atom(self.val(v)) for v in vs] or ["()"])) + ")", ft[2])
         opq = name if len(segs) == 1 else segs[-2] if name == "new" else None
         if opq in self.w.opaque and opq not in self.w.opaque_generic and len(args) == 1:
             # `Id(text)` / `Id::new(text)` of an opaque identifier type: the text of an identifier is kept as its number
@@ -2724,6 +3131,25 @@ class Compiler:
             if a.ty != IDSTR and a.ty[0] != "opaque":
                 raise Reject(f"`{shown}(..)` of a value of type {ty_rust(a.ty)} (only the text of another identifier / `n.to_smolstr()`)")
             return V(a.text, ("opaque", opq))
+        if len(segs) == 2 and name == "from" and segs[0] in self.from_bounds and len(args) == 1:
+            # `T::from(x)` on a type PARAMETER with the bound `T: From<U>`: the explicit conversion parameter `T_from : U -> T`,
+            # which every translated caller supplies (PRELUDE4)
+            T = segs[0]
+            a = self.cx(args[0], env, ind)
+            hits = [u for u in self.from_bounds[T] if unify(u, a.ty) is not None]
+            if len(hits) != 1:
+                raise Reject(f"`{shown}(..)` of a value of type {ty_rust(a.ty)}: {len(hits)} of the bounds `{T}: From<..>` fit")
+            src = hits[0]
+            self.fit(a, src)
+            x = f"{T}_from"
+            if x in env:
+                raise Reject(f"local `{x}` shadows the conversion parameter `{x}`")
+            if x in self.w.conv_ops and self.w.conv_ops[x] != (src, ("tvar", T)):
+                raise Reject(f"two different `{T}: From<..>` bounds in the translated code (the conversion parameter `{x}` would clash)")
+            self.w.externs[x] = ([src], ("tvar", T), f"{ty_atom(src)} → {T}")
+            self.w.conv_ops[x] = (src, ("tvar", T))
+            self.need_extern(x)
+            return V(f"({x} {atom(self.val(a))})", ("tvar", T))
         if len(segs) == 1 and name in ("Some", "Ok", "Err"):
             if len(args) != 1:
                 raise Reject(f"`{name}` with {len(args)} arguments")
@@ -2842,7 +3268,7 @@ class Compiler:
                 raise Reject(f"call of `{shown}`, which has a `&mut` parameter, inside a larger expression (accepted only as a whole "
                              "statement / initialiser / tail / `match` scrutinee)")
             vs, ret = self.call_args(fn, None, args, env, ind, shown, expect)
-            return V("(" + " ".join([self.fname(fn, self.call_convs(fn, vs))] + [atom(self.val(v)) for v in vs]) + ")", ret)
+            return V("(" + " ".join([self.fname(fn, self.call_convs(fn, vs, None, expect))] + [atom(self.val(v)) for v in vs]) + ")", ret)
         elif key[1] in self.w.externs and len(segs) == 1:
             ptys, ret, _ = self.w.externs[name]
             if len(args) != len(ptys):
@@ -2880,8 +3306,33 @@ class Compiler:
             raise Reject(f"call of `{shown}` with {len(args)} arguments")
         if not fn.tvars:
             return [self.cx(a, env, ind, t) for a, (_, t) in zip(args, fn.params)], fn.ret
-        vs = [self.cx(a, env, ind) for a in args]
-        ptys, ret = fn.instance(recv_ty, [v.ty for v in vs], shown)
+        if any(a[0] == "closure" for a in args) and self.w.ctx is not None and self.w.ctx.groups[0] in GROUPS4:
+            # closures among the arguments: the other arguments (and the receiver) say what the callee's type parameters
+            # are as far as the closures' PARAMETER types go; each closure's result then determines the rest
+            ren = {v: ("tvar", "'" + v) for v in fn.tvars}
+            m = {}
+            if recv_ty is not None and fn.self_ty is not None and not match_ty(subst(fn.self_ty, ren), recv_ty, m):
+                raise Reject(f"call of `{shown}`: the receiver does not fit its generic signature")
+            vs = [None] * len(args)
+            for j, (a, (_, pt)) in enumerate(zip(args, fn.params)):
+                if a[0] != "closure":
+                    vs[j] = self.cx(a, env, ind)
+                    if not match_ty(subst(pt, ren), vs[j].ty, m):
+                        raise Reject(f"call of `{shown}`: argument types do not fit its generic signature")
+            for j, (a, (_, pt)) in enumerate(zip(args, fn.params)):
+                if a[0] == "closure":
+                    want = subst(subst(pt, ren), m)
+                    if want[0] != "fn":
+                        raise Reject(f"call of `{shown}`: a closure where {ty_rust(want)} is required")
+                    vs[j] = self.cx_closure(a, want[1], env, ind, None if tvars_primed(want[2]) or has_hole(want[2]) else want[2])
+                    if not match_ty(subst(pt, ren), vs[j].ty, m):
+                        raise Reject(f"call of `{shown}`: the closure's result type {ty_rust(vs[j].ty[2])} does not fit its generic signature")
+            back = {"'" + v: m.get("'" + v, HOLE) for v in fn.tvars}
+            ptys = [subst(subst(t, ren), back) for _, t in fn.params]
+            ret = subst(subst(fn.ret, ren), back)
+        else:
+            vs = [self.cx(a, env, ind) for a in args]
+            ptys, ret = fn.instance(recv_ty, [v.ty for v in vs], shown)
         for v, pt in zip(vs, ptys):
             self.fit(v, pt, f"argument of `{shown}`")
         if expect is not None and has_hole(ret) and unify(ret, expect) is not None:
@@ -2981,6 +3432,10 @@ class Compiler:
         _, recv, name, args = e
         r = self.cx(recv, env, ind)
         t = r.ty
+        if self.w.ctx is not None and self.w.ctx.groups[0] in GROUPS4 and t[0] in ("list", "seq", "imap", "opt"):
+            v = self.cx_iter_call(e, r, env, ind, expect)
+            if v is not None:
+                return v
         if t[0] in MAPLIKE or t[0] in ENTRYLIKE or t[0] == "bag":
             return self.cx_map_call(e, r, env, ind, expect)
         if t[0] in ("struct", "enum") and self.method_fn(t[1], name) is not None:
@@ -2990,11 +3445,17 @@ class Compiler:
             if fn.mode not in ("ref", "own", "ownmut"):
                 raise Reject(f"`.{name}(..)`: `{t[1]}::{name}` takes no `self`")
             vs, ret = self.call_args(fn, t, args, env, ind, f".{name}(..)", expect)
-            return V("(" + " ".join([self.fname(fn), atom(r.text)] + [atom(self.val(v)) for v in vs]) + ")", ret)
+            return V("(" + " ".join([self.fname(fn, self.call_convs(fn, vs, t, expect)), atom(r.text)] + [atom(self.val(v)) for v in vs]) + ")", ret)
         if t[0] in ("struct", "enum") and (t[1], name) in self.w.failed:
             raise Reject(f"call of `{t[1]}::{name}`, which was rejected above")
         if t[0] == "tvar" and name == "into" and not args:
             return self.cx_into(r, expect)
+        if t[0] == "tvar" and not (name == "clone" and not args) and self.trait_method(t, name) is not None:
+            call, rt, mode = self.trait_call(t, r.text, name, args, env, ind)
+            if mode != "ref":
+                raise Reject(f"call of the `&mut self` trait method `.{name}(..)` inside a larger expression (accepted only as a whole "
+                             "statement / initialiser / tail on a field path of a mutable variable)")
+            return V(f"({call})", rt)
         if t[0] == "tvar" and not (name == "clone" and not args):
             cands = [tn for tn, ms in self.w.traits.items() if name in ms]
             if len(cands) != 1:
@@ -3010,6 +3471,7 @@ class Compiler:
                 raise Reject(f"local `{x}` shadows the trait parameter `{x}`")
             self.w.externs[x] = ([], UNIT, f"{cands[0]} {t[1]}")
             self.w.tvar_ops.add(x)
+            self.w.tvar_op_var[x] = t[1]
             self.need_extern(x)
             return V("(" + " ".join([f"{x}.{lean_id(name)}", atom(r.text)] + [atom(self.val(v)) for v in vs]) + ")", subst(rt, sub))
         if t[0] == "lock" and name == "read" and not args:
@@ -3088,6 +3550,9 @@ class Compiler:
             x, env2 = self.bind(c[1], t[1], False, env)
             if name == "map":
                 b = self.cx(c[2], env2, ind, expect[1] if expect and expect[0] == "opt" else None)
+                if self.w.ctx is not None and self.w.ctx.groups[0] in GROUPS4:
+                    # (fourth file) the combinator, not a `match`: agreement proofs normalise `find(p).map(f)` / `find_map(..)`
+                    return V(f"(Option.map (fun {x} => {self.val(b)}) {atom(r.text)})", ("opt", b.ty))
                 return V(f"(match {r.text} with | none => none | some {x} => some {atom(self.val(b))})", ("opt", b.ty))
             b = self.cx(c[2], env2, ind, BOOL)
             dflt = "true" if name == "is_none_or" else "false"
@@ -3139,6 +3604,15 @@ class Compiler:
             self.inhabit(t[1])
             x = self.fresh("some")
             return V(f"(match {r.text} with | some {x} => {x} | none => Rust.unreachable)", t[1])
+        if t[0] == "res" and name in ("expect", "unwrap") and not args and self.w.ctx is not None and self.w.ctx.groups[0] in GROUPS4:
+            if has_hole(t[1]):
+                raise Reject(f"`.{name}()` on a Result of undetermined type")
+            self.inhabit(t[1])
+            x = self.fresh("ok")
+            return V(f"(match {r.text} with | Except.ok {x} => {x} | Except.error _ => Rust.unreachable)", t[1])
+        if t[0] == "res" and name == "ok" and not args and self.w.ctx is not None and self.w.ctx.groups[0] in GROUPS4:
+            x = self.fresh("ok")
+            return V(f"(match {r.text} with | Except.ok {x} => some {x} | Except.error _ => none)", ("opt", t[1]))
         if t == DEC and name == "is_sign_negative" and not args:
             return V(f"({r.text} < 0)", BOOL, True)
         if t[0] == "opt" and name == "take":
@@ -3149,6 +3623,273 @@ class Compiler:
         if t == DELTA and name == "num_milliseconds" and not args:
             return V(r.text, INT)
         raise Reject(f"method call `.{name}(..)` on a value of type {ty_rust(t)}")
+
+    # ---- (fourth file) ITERATORS as lists: PRELUDE4
+    def lam(self, c, argty, env, ind, expect=None, what="closure"):
+        """a closure `|x| e` / `|(a, b)| e` / `|| e` used as a pure FUNCTION VALUE (or a path `Type::method` / `Enum::Variant` /
+        `f` naming a one-argument function): (Lean `fun` text, result V).  The body is compiled as a pure expression, so it
+        can neither assign nor call a state-changing method; it may read any variable in scope (PRELUDE4)."""
+        if has_hole(argty):
+            raise Reject(f"{what} over items of undetermined type")
+        if c[0] == "closure":
+            if c[1] is None:
+                raise Reject(f"{what} without a parameter")
+            if isinstance(c[1], str):
+                x, env2 = self.bind(c[1], argty, False, env)
+                pt = x
+            else:
+                pt, env2 = self.cpat(c[1], argty, env)
+            if c[2][0] == "block" and not self.branch_is_pure(c[2], env2):
+                b = self.closure_body(c[2], env2, ind, expect)
+            else:
+                b = self.cx(c[2], env2, ind + 1, expect)
+            return f"(fun {pt} => {self.val(b)})", b
+        if c[0] == "path":
+            x = self.fresh("x")
+            arg = ("lean", x, argty)
+            if len(c[1]) >= 2 and argty[0] in ("struct", "enum") and c[1][-2] in (argty[1], "Self") \
+                    and self.method_fn(argty[1], c[1][-1]) is not None and self.w.fns[(argty[1], c[1][-1])].mode != "none":
+                b = self.cx(("mcall", arg, c[1][-1], []), env, ind, expect)       # a method path `Type::method`
+            else:
+                b = self.cx(("call", c[1], [arg]), env, ind, expect)               # a function / constructor path
+            return f"(fun {x} => {self.val(b)})", b
+        raise Reject(f"{what} that is neither a closure `|x| ..` nor a path naming a function")
+
+    def cx_closure(self, c, argtys, env, ind, expect_ret):
+        """(fourth file) a closure handed to a parameter of function type `Fn(A, B) -> R`: the Lean function; V of type fn"""
+        params = [] if c[1] is None else c[1] if isinstance(c[1], list) else [c[1]]
+        if len(params) != len(argtys):
+            raise Reject(f"closure with {len(params)} parameters where a function of {len(argtys)} is required")
+        env2, pts = env, []
+        for q, t in zip(params, argtys):
+            if has_hole(t) or tvars_primed(t):
+                raise Reject("closure parameter of undetermined type")
+            if isinstance(q, str):
+                x, env2 = self.bind(q, t, False, env2)
+                pts.append(x)
+            else:
+                pt, env2 = self.cpat(q, t, env2)
+                pts.append(pt)
+        if c[2][0] == "block" and not self.branch_is_pure(c[2], env2):
+            b = self.closure_body(c[2], env2, ind, expect_ret)
+        else:
+            b = self.cx(c[2], env2, ind + 1, expect_ret)
+        head = " ".join(pts) if pts else "(_ : Unit)"
+        return V(f"(fun {head} => {self.val(b)})", ("fn", tuple(argtys), b.ty))
+
+    def closure_body(self, blk, env, ind, expect):
+        """a closure whose body is a block with early exits (`let x = e?;`, `let .. else { return None; }`, `return ..`): compiled
+        like a function body whose result type is the closure's; the enclosing function's state cannot be changed (every
+        variable of the enclosing scope is read-only inside)"""
+        if expect is None or has_hole(expect):
+            raise Reject("closure with early exits (`?` / `return`) whose result type is not determined by its context")
+        sub = Compiler(self.w, self.self_ty, "none", expect, self.used, self.tr)
+        sub.used = self.used
+        sub.globs, sub.into_bounds, sub.from_bounds, sub.bounds, sub.externs = self.globs, self.into_bounds, self.from_bounds, self.bounds, self.externs
+        sub.mutparam = None
+        env2 = {n: Var(v.ty, False, v.lean) for n, v in env.items()}
+        text = sub.cs(blk[1], 0, blk[2], env2, sub.k_ret, ind + 2, expect)
+        return V("(\n" + text + ")", expect)
+
+    def cx_iter_call(self, e, r, env, ind, expect):
+        """(fourth file) the iterator vocabulary of PRELUDE4 on `Vec` / slices / `IndexMap` / iterators (`seq`): V, or None
+        if the call is not part of it"""
+        _, recv, name, args = e
+        t = r.ty
+        k = t[0]
+        if k == "list" and name in ("iter", "into_iter") and not args:
+            return V(r.text, ("seq", t[1]))
+        if k == "opt" and name in ("iter", "into_iter") and not args:
+            return V(f"(Option.toList {atom(r.text)})", ("seq", t[1]))
+        if k == "imap" and name in ("iter", "into_iter") and not args:
+            return V(r.text, ("seq", ("tuple", (t[1], t[2]))))
+        if k == "imap" and name in ("values", "into_values") and not args:
+            return V(f"(Rust.IndexMap.values {atom(r.text)})", ("seq", t[2]))
+        if k == "imap" and name in ("keys", "into_keys") and not args:
+            return V(f"(Rust.IndexMap.keys {atom(r.text)})", ("seq", t[1]))
+        if k == "list" and name == "len" and not args:
+            return V(f"(List.length {atom(r.text)})", NAT)
+        if k == "list" and name == "is_empty" and not args:
+            return V(f"({r.text} = [])", BOOL, True)
+        if k in ("list", "seq") and name == "contains" and len(args) == 1 and k == "list":
+            a = self.cx(args[0], env, ind, t[1] if not has_hole(t[1]) else None)
+            return V(f"(List.elem {atom(self.val(a))} {atom(r.text)})", BOOL)
+        if k == "list" and name == "first" and not args:
+            return V(f"(List.head? {atom(r.text)})", ("opt", t[1]))
+        if k == "list" and name == "last" and not args:
+            return V(f"(List.getLast? {atom(r.text)})", ("opt", t[1]))
+        if k == "list" and name == "get" and len(args) == 1:
+            i = self.cx(args[0], env, ind, NAT)
+            if i.ty == INTLIT:
+                i.ty = NAT
+            if i.ty != NAT:
+                raise Reject(f"`.get(..)` with an index of type {ty_rust(i.ty)}")
+            return V(f"({r.text}[{self.val(i)}]?)", ("opt", t[1]))
+        if k != "seq":
+            return None
+        T = t[1]
+        if name in ("cloned", "copied", "into_iter", "iter", "by_ref", "peekable", "fuse") and not args:
+            if name in ("by_ref", "peekable", "fuse", "iter"):
+                return None
+            return r
+        if name == "map" and len(args) == 1:
+            f, b = self.lam(args[0], T, env, ind, expect[1] if expect and expect[0] == "seq" else None, "`.map(..)`")
+            return V(f"(List.map {f} {atom(r.text)})", ("seq", b.ty))
+        if name == "filter" and len(args) == 1:
+            f, b = self.lam(args[0], T, env, ind, BOOL, "`.filter(..)`")
+            return V(f"(List.filter {f} {atom(r.text)})", t)
+        if name == "filter_map" and len(args) == 1:
+            ex = ("opt", expect[1]) if expect and expect[0] == "seq" and not has_hole(expect[1]) else None
+            f, b = self.lam(args[0], T, env, ind, ex, "`.filter_map(..)`")
+            if b.ty[0] != "opt":
+                raise Reject(f"`.filter_map(..)` with a closure that yields {ty_rust(b.ty)}")
+            return V(f"(List.filterMap {f} {atom(r.text)})", ("seq", b.ty[1]))
+        if name == "find" and len(args) == 1:
+            f, b = self.lam(args[0], T, env, ind, BOOL, "`.find(..)`")
+            return V(f"(List.find? {f} {atom(r.text)})", ("opt", T))
+        if name == "find_map" and len(args) == 1:
+            f, b = self.lam(args[0], T, env, ind, expect if expect and expect[0] == "opt" and not has_hole(expect) else None, "`.find_map(..)`")
+            if b.ty[0] != "opt":
+                raise Reject(f"`.find_map(..)` with a closure that yields {ty_rust(b.ty)}")
+            return V(f"(List.findSome? {f} {atom(r.text)})", b.ty)
+        if name == "position" and len(args) == 1:
+            f, b = self.lam(args[0], T, env, ind, BOOL, "`.position(..)`")
+            return V(f"(Rust.Iter.position {f} {atom(r.text)})", ("opt", NAT))
+        if name in ("any", "all") and len(args) == 1:
+            f, b = self.lam(args[0], T, env, ind, BOOL, f"`.{name}(..)`")
+            return V(f"(List.{name} {atom(r.text)} {f})", BOOL)
+        if name == "flat_map" and len(args) == 1:
+            f, b = self.lam(args[0], T, env, ind, None, "`.flat_map(..)`")
+            if b.ty[0] in ("seq", "list"):
+                return V(f"(List.flatten (List.map {f} {atom(r.text)}))", ("seq", b.ty[1]))
+            if b.ty[0] == "opt":
+                return V(f"(List.filterMap {f} {atom(r.text)})", ("seq", b.ty[1]))
+            raise Reject(f"`.flat_map(..)` with a closure that yields {ty_rust(b.ty)} (only an iterator / `Vec` / `Option`)")
+        if name == "flatten" and not args:
+            if T[0] in ("seq", "list"):
+                return V(f"(List.flatten {atom(r.text)})", ("seq", T[1]))
+            if T[0] == "opt":
+                return V(f"(List.filterMap (fun x => x) {atom(r.text)})", ("seq", T[1]))
+            raise Reject(f"`.flatten()` on an iterator over {ty_rust(T)}")
+        if name == "chain" and len(args) == 1:
+            a = self.cx(args[0], env, ind)
+            if a.ty[0] not in ("seq", "list", "opt") or unify(a.ty[1], T) is None:
+                raise Reject(f"`.chain(..)` of {ty_rust(a.ty)} onto an iterator over {ty_rust(T)}")
+            at = f"(Option.toList {atom(a.text)})" if a.ty[0] == "opt" else a.text
+            return V(f"({r.text} ++ {at})", ("seq", unify(a.ty[1], T)))
+        if name == "enumerate" and not args:
+            return V(f"(Rust.Iter.enumerate {atom(r.text)})", ("seq", ("tuple", (NAT, T))))
+        if name == "zip" and len(args) == 1:
+            a = self.cx(args[0], env, ind)
+            if a.ty[0] not in ("seq", "list"):
+                raise Reject(f"`.zip(..)` with {ty_rust(a.ty)}")
+            return V(f"(List.zip {atom(r.text)} {atom(a.text)})", ("seq", ("tuple", (T, a.ty[1]))))
+        if name == "count" and not args:
+            return V(f"(List.length {atom(r.text)})", NAT)
+        if name == "fold" and len(args) == 2:
+            init = self.cx(args[0], env, ind, expect)
+            if has_hole(init.ty):
+                raise Reject("`.fold(..)` whose initial value has an undetermined type")
+            f = self.cx_closure(args[1], (init.ty, T), env, ind, init.ty)
+            return V(f"(List.foldl {f.text} {atom(self.val(init))} {atom(r.text)})", init.ty)
+        if name == "next" and not args:
+            raise Reject("`.next()` on an iterator (stateful consumption is not in the vocabulary)")
+        if name == "collect" and (not args or args[0][0] == "tyarg"):
+            tgt = expect
+            if args:
+                tgt = self.tr.resolve(args[0][1])
+                if expect is not None:
+                    tgt = unify(tgt, expect) or tgt
+            if tgt is None or tgt == HOLE:
+                # the target collection is what a LATER use says (`let xs = it.collect(); S { xs, .. }`): the item list, converted
+                # where it is used at a collection type (`fit`); Rust infers the one target from that use too
+                return V(r.text, ("pending", T))
+            if tgt[0] == "list":
+                u = unify(tgt[1], T)
+                if u is None:
+                    raise Reject(f"`.collect()` of items of type {ty_rust(T)} into {ty_rust(tgt)}")
+                return V(r.text, ("list", u))
+            if tgt[0] in MAPLIKE:
+                u = unify(("tuple", (tgt[1], tgt[2])), T)
+                if u is None:
+                    raise Reject(f"`.collect()` of items of type {ty_rust(T)} into {ty_rust(tgt)}")
+                ns = "Rust.Map" if tgt[0] == "map" else "Rust.IndexMap"
+                return V(f"({ns}.collect {atom(r.text)})", (tgt[0], u[1][0], u[1][1]))
+            if tgt[0] == "seq":
+                return r
+            raise Reject(f"`.collect()` into {ty_rust(tgt)} (only `Vec`, `IndexMap`, `HashMap`)")
+        raise Reject(f"iterator method `.{name}(..)` (not in the vocabulary of PRELUDE4)")
+
+    def ord_param(self, t):
+        """(fourth file) `a <= b` of the `Ord` impl of the element type of a sorted `Vec`: NOT translated (a `#[derive(Ord)]` /
+        hand-written impl), the explicit parameter `Ord_<type> : T → T → Bool` (PRELUDE4)"""
+        x = "Ord_" + re.sub(r"\W+", "_", ty_rust(t)).strip("_")
+        lty = f"{ty_atom(t)} → {ty_atom(t)} → Bool"
+        if x in self.w.externs and self.w.externs[x][2] != lty:
+            raise Reject(f"two element types share the ordering parameter name `{x}`")
+        self.w.externs[x] = ([t, t], BOOL, lty)
+        self.need_extern(x)
+        return x
+
+    def trait_method(self, t, name):
+        """(fourth file) the TraitInfo whose method `.name(..)` on a value of the type parameter `t` is, or None"""
+        if t[0] != "tvar" or self.w.ctx is None or self.w.ctx.groups[0] not in GROUPS4:
+            return None
+        cands = [ti for ti in self.w.trait_info.values() if name in ti.methods]
+        return cands[0] if len(cands) == 1 else None
+
+    def trait_call(self, t, recv_text, name, args, env, ind):
+        """(fourth file) `x.name(args)` on a value of the type parameter `T` bound by `T: Trait<A.., Name = Ty>`: the field `name` of
+        the explicit parameter `T_Trait : Trait T A.. <associated types>`.  Returns (call text, result type, receiver mode)."""
+        info = self.trait_method(t, name)
+        md = info.methods[name]
+        T = t[1]
+        tsub = {"Self": t}
+        bound = next((b for b in self.bounds.get(T, []) if b[0] == info.name), None)
+        if (info.generics or info.assocs) and bound is None:
+            raise Reject(f"`.{name}(..)` on a value of the type parameter `{T}`, which has no bound `{T}: {info.name}<..>` in the `where` "
+                         "clause of the function")
+        if bound:
+            for g, toks in zip(info.generics, bound[1]):
+                tsub[g] = self.tr.resolve(toks)
+        for an in info.assocs:
+            tsub[an] = self.tr.resolve([T, "::", an])
+        x = f"{T}_{info.name}"
+        if x in env:
+            raise Reject(f"local `{x}` shadows the trait parameter `{x}`")
+        lty = " ".join([info.name, T] + [ty_atom(tsub[g]) for g in info.generics + info.assocs])
+        if x in self.w.externs and self.w.externs[x][2] != lty:
+            raise Reject(f"two different instances `{T}: {info.name}<..>` in the translated code (the trait parameter `{x}` would clash)")
+        self.w.externs[x] = ([], UNIT, lty)
+        self.w.tvar_ops.add(x)
+        self.w.tvar_op_var[x] = T
+        self.need_extern(x)
+        if len(args) != len(md["ptys"]):
+            raise Reject(f"`.{name}(..)` with {len(args)} arguments")
+        ren = {g: ("tvar", "'" + g) for g in md["gs"]}
+        full = dict(tsub)
+        if md["gs"]:
+            vs = [self.cx(a, env, ind) for a in args]
+            m = {}
+            for pt, v in zip(md["ptys"], vs):
+                if not match_ty(subst(subst(pt, ren), tsub), v.ty, m):
+                    raise Reject(f"`.{name}(..)`: argument of type {ty_rust(v.ty)} does not fit the method's generic signature")
+            for g in md["gs"]:
+                if m.get("'" + g, HOLE) == HOLE or has_hole(m["'" + g]):
+                    raise Reject(f"`.{name}(..)`: the method's type parameter `{g}` is not determined by the arguments")
+                full[g] = m["'" + g]
+            for pt, v in zip(md["ptys"], vs):
+                self.fit(v, subst(pt, full), f"argument of `.{name}(..)`")
+        else:
+            vs = [self.cx(a, env, ind, subst(pt, tsub)) for a, pt in zip(args, md["ptys"])]
+        convs = []
+        for g, srcs in md["frm"].items():
+            for u in srcs:
+                f, _ = self.conversion(subst(u, full), subst(("tvar", g), full))
+                y = self.fresh("x")
+                convs.append(f"(fun {y} => {y})" if f is None else f"(fun {y} => {f} {y})")
+        call = " ".join([f"{lean_id(x)}.{lean_id(name)}"] + convs + [atom(recv_text)] + [atom(self.val(v)) for v in vs])
+        return call, subst(md["rt"], full), md["mode"]
 
     def conversion(self, src, dst):
         """`From<src> for dst` as (Lean function text | None for the identity, the target type): the blanket `From<T> for T`, or
@@ -3177,8 +3918,11 @@ class Compiler:
             if tgt is None:
                 raise Reject(f"`.into()` on a value of the type parameter `{t[1]}`, which has no `{t[1]}: Into<..>` bound")
             x = f"{t[1]}_into"
+            if x in self.w.conv_ops and self.w.conv_ops[x] != (t, tgt) and self.w.ctx is not None and self.w.ctx.groups[0] in GROUPS4:
+                # (fourth file) another fn has a type parameter of the same name with another target: a name of its own
+                x += "_" + re.sub(r"\W+", "_", ty_rust(tgt)).strip("_")
             self.w.externs[x] = ([t], tgt, f"{t[1]} → {ty_lean(tgt)}")
-            self.w.conv_ops[x] = (t[1], tgt)
+            self.w.conv_ops[x] = (t, tgt)
             self.need_extern(x)
             return V(f"({x} {atom(r.text)})", tgt)
         if expect is None or expect == HOLE:
@@ -3257,8 +4001,10 @@ class Compiler:
         if op == "%":
             raise Reject("`%` operator")
         if u in (NAT, INTLIT) and op == "/" and re.fullmatch(r"\d+", b.text) and int(b.text) != 0 \
-                and self.w.ctx is not None and self.w.ctx.groups[0] in GROUPS3:
+                and self.w.ctx is not None and self.w.ctx.groups[0] in GROUPS34:
             return V(f"({a.text} / {b.text})", NAT)      # u64 division by a non-zero literal: `Nat` division (truncating, no panic)
+        if u in (NAT, INTLIT) and op == "-" and self.w.ctx is not None and self.w.ctx.groups[0] in GROUPS4:
+            return V(f"(Rust.u64_sub {atom(a.text)} {atom(b.text)})", NAT)      # PRELUDE4: a panic on underflow
         if u in (NAT, INTLIT) and op in ("-", "/"):
             raise Reject(f"`{op}` on u64 values (underflow / truncation is not modelled)")
         if u in (INT, DELTA) and op == "/":
@@ -3281,11 +4027,16 @@ class Compiler:
                 raise Reject(f"local `{x}` shadows the ordering parameter `{x}`")
             self.w.externs[x] = ([t, t], BOOL, f"Rust.PartialOrd {t[1]}")
             self.w.tvar_ops.add(x)
+            self.w.tvar_op_var[x] = t[1]
             self.need_extern(x)
             return V(f"({x}.{ {'<': 'lt', '<=': 'le', '>': 'gt', '>=': 'ge'}[op] } {atom(a.text)} {atom(b.text)})", BOOL)
         if op in CMPSYM:
             u = unify(a.ty, b.ty)
             ok = u in ORDERED or (op in ("==", "!=") and u is not None and u[0] in ("enum", "tvar", "opaque"))
+            if not ok and op in ("==", "!=") and u is not None and u[0] == "struct" and not has_hole(u) and self.w.ctx is not None \
+                    and self.w.ctx.groups[0] in GROUPS4 and "PartialEq" in getattr(self.w.structs[u[1]], "derives", []) \
+                    and not self.w.structs[u[1]].dropped:
+                ok = True        # `#[derive(PartialEq)]` on a fully translated struct: field-wise equality, Lean's `=` (PRELUDE4)
             if not ok:
                 raise Reject(f"comparison `{op}` on {ty_rust(a.ty)} / {ty_rust(b.ty)}")
             if u == INTLIT:
@@ -3296,7 +4047,7 @@ class Compiler:
     # ---- patterns
     def irrefutable(self, p):
         def is_struct(n):
-            return n in self.w.structs or self.w.alias_base(n) in self.w.structs
+            return self.w.rn(n) in self.w.structs or self.w.alias_base(n) in self.w.structs
         return p[0] in ("pbind", "pwild") or (p[0] == "ptuple" and all(self.irrefutable(q) for q in p[1])) or \
             (p[0] == "pctor" and len(p[1]) == 1 and is_struct(p[1][0]) and all(self.irrefutable(q) for q in p[2])) or \
             (p[0] == "pstruct" and len(p[1]) == 1 and is_struct(p[1][0]) and all(self.irrefutable(q) for _, q in p[2]))
@@ -3446,7 +4197,7 @@ class Compiler:
                 raise Reject(f"pattern `Entry::{p[1][-1]}(..)` arity")
             s, env = self.cpat(p[2][0], ("occ" if p[1][-1] == "Occupied" else "vac",) + ty[1:], env)
             return f"Rust.Entry.{p[1][-1]} {atom(s)}", env
-        if k in ("pctor", "pstruct") and ty[0] == "struct" and (p[1][-1] in (ty[1], "Self") or self.w.alias_base(p[1][-1]) == ty[1]):
+        if k in ("pctor", "pstruct") and ty[0] == "struct" and (self.w.rn(p[1][-1]) in (ty[1], "Self") or self.w.alias_base(p[1][-1]) == ty[1]):
             st = self.w.structs[ty[1]]
             if st.dropped:
                 raise Reject(f"pattern on `{st.name}`, whose fields are only partly translated")
@@ -3985,8 +4736,12 @@ class Compiler:
             return ("take", lv, pl)
         if e[2] == "push" and len(e[3]) == 1 and pl.ty[0] == "list":
             return ("push", lv, pl)
+        if e[2] in ("sort", "dedup") and not e[3] and pl.ty[0] == "list" and self.w.ctx is not None and self.w.ctx.groups[0] in GROUPS4:
+            return (e[2], lv, pl)
         if e[2] == "replace" and len(e[3]) == 1 and pl.ty[0] == "opt":
             return ("replace", lv, pl)
+        if pl.ty[0] == "tvar" and self.trait_method(pl.ty, e[2]) is not None and self.trait_method(pl.ty, e[2]).methods[e[2]]["mode"] == "mut":
+            return ("tcall", lv, pl)      # (fourth file) a `&mut self` method of a bound trait of the type parameter
         if pl.ty[0] == "struct" and self.accessor_of(pl.ty[1], e[2]) is not None:
             return None                   # a `&mut`-returning accessor: not a call, read in place by mut_lens
         if pl.ty[0] == "struct" and self.method_fn(pl.ty[1], e[2]) is not None and self.w.fns[(pl.ty[1], e[2])].mode == "mut":
@@ -4018,6 +4773,16 @@ class Compiler:
             lines = [f"{pad}let {c} := {call}",
                      f"{pad}let {env[root].lean} : {ty_lean(env[root].ty)} := {self.set_place(root, fields, env, c + '.1')}"]
             return lines + self.writeback(root, env, pad), self.fit(V(f"{c}.2", fn.ret), expect)
+        if eff and eff[0] == "tcall":
+            _, (root, fields), pl = eff
+            call, rt, _ = self.trait_call(pl.ty, pl.text, e[2], e[3], env, ind)
+            if rt == UNIT:
+                return ([f"{pad}let {env[root].lean} : {ty_lean(env[root].ty)} := {self.set_place(root, fields, env, '(' + call + ')')}"]
+                        + self.writeback(root, env, pad)), self.fit(V("()", UNIT), expect)
+            c = self.fresh("call")
+            lines = [f"{pad}let {c} := {call}",
+                     f"{pad}let {env[root].lean} : {ty_lean(env[root].ty)} := {self.set_place(root, fields, env, c + '.1')}"]
+            return lines + self.writeback(root, env, pad), self.fit(V(f"{c}.2", rt), expect)
         if eff and eff[0] in ("occ_remove", "occ_insert", "vac_insert"):
             _, (root, _), pl = eff
             mroot, mfields = pl.ty[3]
@@ -4065,6 +4830,16 @@ class Compiler:
             lines = [f"{pad}let {t} : {ty_lean(pl.ty)} := {pl.text}",
                      f"{pad}let {env[root].lean} : {ty_lean(env[root].ty)} := {self.set_place(root, fields, env, '(some ' + atom(self.val(x)) + ')')}"]
             return lines + self.writeback(root, env, pad), self.fit(V(t, pl.ty), expect)
+        if eff and eff[0] in ("sort", "dedup"):
+            _, (root, fields), pl = eff
+            if has_hole(pl.ty[1]):
+                raise Reject(f"`.{eff[0]}()` on a `Vec` of undetermined element type")
+            if eff[0] == "sort":
+                new = f"(List.mergeSort {atom(pl.text)} {self.ord_param(pl.ty[1])})"
+            else:
+                new = f"(Rust.Vec.dedup {atom(pl.text)})"
+            return ([f"{pad}let {env[root].lean} : {ty_lean(env[root].ty)} := {self.set_place(root, fields, env, new)}"]
+                    + self.writeback(root, env, pad)), self.fit(V("()", UNIT), expect)
         if eff and eff[0] == "push":
             _, (root, fields), pl = eff
             x = self.cx(e[3][0], env, ind, pl.ty[1] if not has_hole(pl.ty[1]) else None)
@@ -4074,9 +4849,10 @@ class Compiler:
         if eff:
             _, (root, fields), pl = eff
             fn = self.w.fns[(pl.ty[1], e[2])]
-            vs, ret = self.call_args(fn, pl.ty, e[3], env, ind, f".{e[2]}(..)")
+            vs, ret = self.call_args(fn, pl.ty, e[3], env, ind, f".{e[2]}(..)", expect)
+            convs = self.call_convs(fn, vs, pl.ty, expect)
             fn = Fn(fn.lean, fn.mode, fn.self_ty, fn.params, ret, (), fn.externs)
-            call = " ".join([self.fname(fn), atom(pl.text)] + [atom(self.val(v)) for v in vs])
+            call = " ".join([self.fname(fn, convs), atom(pl.text)] + [atom(self.val(v)) for v in vs])
             if fn.ret == UNIT:
                 return ([f"{pad}let {env[root].lean} : {ty_lean(env[root].ty)} := {self.set_place(root, fields, env, '(' + call + ')')}"]
                         + self.writeback(root, env, pad)), self.fit(V("()", UNIT), expect)
@@ -4122,18 +4898,63 @@ class Compiler:
                     f"{pad}| Except.ok {pat} =>\n" + inner(ind + 1) + ")")
         raise Reject(f"`?` on a value of type {ty_rust(v.ty)}")
 
-    def hoist(self, e):
+    @staticmethod
+    def mentions(e, acc=None):
+        """the variable names (single-segment paths) an expression mentions"""
+        acc = set() if acc is None else acc
+        if isinstance(e, (tuple, list)):
+            if len(e) == 2 and e[0] == "path" and isinstance(e[1], list) and len(e[1]) == 1:
+                acc.add(e[1][0])
+            else:
+                for x in e:
+                    Compiler.mentions(x, acc)
+        return acc
+
+    def hoist(self, e, env=None):
         """`inner?` below the top of an initialiser / statement / tail, in a position that is always evaluated (method
         receiver and arguments, call arguments, operands other than `&&` `||`, fields, casts, literals), is taken out as
         `let try_n = inner?;` in evaluation order.  Returns ([let statements], rewritten expression); a `?` inside a
         branch, block or closure is left where it is (and rejected by the expression compiler)."""
         lets = []
+        seen = set()         # variables read by what has been evaluated so far (fourth file: see `effect_below`)
+        eff_ok = env is not None and self.w.ctx is not None and self.w.ctx.groups[0] in GROUPS4
 
         def is_path(x):
             return (x[0] == "path" and len(x[1]) == 1) or (x[0] == "field" and is_path(x[1]))
 
+        def effect_below(x):
+            """(fourth file) a state-changing call (`&mut self` method on a field path of a mutable variable, `push`, `take`, ..)
+            BELOW the top of an expression, in a position that is always evaluated: taken out as `let call_n = <call>;` in
+            evaluation order -- provided nothing evaluated BEFORE it in the same expression reads the variable it changes
+            (then the order of the two cannot matter); what is evaluated after it sees the new state, as in Rust."""
+            if not eff_ok or x[0] not in ("mcall", "call"):
+                return None
+            try:
+                eff = self.effect(x, env)
+            except Reject:
+                return None
+            if not eff:
+                return None
+            root = eff[1][0]
+            if root in seen:
+                raise Reject(f"state-changing call `.{x[2]}(..)` inside an expression that reads `{root}` before it" if x[0] == "mcall"
+                             else "state-changing call inside an expression that reads the changed variable before it")
+            name = self.fresh("call")
+            lets.append(("let", ("pbind", name, False), None, x, None))
+            return ("path", [name])
+
         def go(x, top, spine=False):
+            r = go0(x, top, spine)
+            if eff_ok and r is x:
+                seen.update(self.mentions(x))
+            return r
+
+        def go0(x, top, spine=False):
             k = x[0]
+            if not top and k in ("mcall", "call"):
+                h = effect_below(x)
+                if h is not None:
+                    return h
             if k == "try":
                 inner = go(x[1], False, spine or top)
                 if top:
@@ -4173,26 +4994,26 @@ class Compiler:
         if i == len(items):
             if tail is None:
                 return k(V("()", UNIT), env, ind)
-            lets, tail2 = self.hoist(tail)
+            lets, tail2 = self.hoist(tail, env)
             if lets:
                 return self.cs(list(items) + lets, i, tail2, env, k, ind, expect)
             return self.ctail(tail, env, k, ind, expect)
         st = items[i]
         if st[0] == "let":
-            lets, init2 = self.hoist(st[3])
+            lets, init2 = self.hoist(st[3], env)
             if lets:
                 return self.cs(list(items[:i]) + lets + [("let", st[1], st[2], init2, st[4])] + list(items[i + 1:]), i, tail, env, k, ind, expect)
         elif st[0] == "expr":
             x = st[1]
             lets = []
             if x[0] == "assign":
-                lets, r2 = self.hoist(x[3])
+                lets, r2 = self.hoist(x[3], env)
                 x2 = ("assign", x[1], x[2], r2)
             elif x[0] == "return" and x[1] is not None:
-                lets, r2 = self.hoist(x[1])
+                lets, r2 = self.hoist(x[1], env)
                 x2 = ("return", r2)
             elif x[0] not in BLOCKLIKE and x[0] not in ("panic", "return"):
-                lets, x2 = self.hoist(x)
+                lets, x2 = self.hoist(x, env)
             if lets:
                 return self.cs(list(items[:i]) + lets + [("expr", x2)] + list(items[i + 1:]), i, tail, env, k, ind, expect)
 
@@ -4621,7 +5442,7 @@ class Compiler:
         """is the type of a `let` not determined well enough?  For the first two files: any hole.  For the third: a hole at the
         top or an integer literal of unknown width anywhere; other holes (type arguments Rust infers from a LATER use, e.g.
         the error type of an `Ok(..)`) are written `_` and left to Lean's elaborator, which rejects what it cannot infer."""
-        if self.w.ctx is None or self.w.ctx.groups[0] not in GROUPS3:
+        if self.w.ctx is None or self.w.ctx.groups[0] not in GROUPS34:
             return has_hole(t)
 
         def lit(x):
@@ -4637,7 +5458,7 @@ class Compiler:
     def inhabit(self, t):
         """a panic as a VALUE of type t (`Rust.unreachable : t`) needs `Inhabited t`: for the groups of the third file the
         instance is derived on demand (the first two files keep their committed form: their types have what they need)"""
-        if self.w.ctx is not None and self.w.ctx.groups[0] in GROUPS3 and not ensure_inhabited(self.w, t):
+        if self.w.ctx is not None and self.w.ctx.groups[0] in GROUPS34 and not ensure_inhabited(self.w, t):
             raise Reject(f"a panic as a value of type {ty_rust(t)}, which cannot be given an `Inhabited` instance")
 
     def panic_text(self):
@@ -4791,14 +5612,64 @@ class Compiler:
 
 # ------------------------------------------------------------------------------------------ driver
 
-def compile_fn(world, parsed, toks, cname, self_ty, lean_name, tmap=None, tvars=(), assoc=None, where_into=None):
+def compile_fn(world, parsed, toks, cname, self_ty, lean_name, tmap=None, tvars=(), assoc=None, where_into=None, pinfo=None):
     """(Lean text of the definition, Fn); tvars = type parameters of the enclosing impl (kept generic)"""
     name, gs, mode, params, ret_toks, body = parsed
     if mode != "none" and (self_ty is None or self_ty[0] not in ("struct", "enum")):
         raise Reject("`self` receiver outside an impl of a translated struct / enum")
     if mode in ("mut", "ownmut") and self_ty[0] == "enum":
         raise Reject("`&mut self` / `mut self` receiver on an enum (only `&self` / `self`)")
+    tvars = list(tvars) + [a for a in sorted(world.abstract) if a not in tvars]
     tr = TypeResolver(world, self_ty, tvars, assoc)
+    bounds = {}          # (fourth file) type parameter -> [(trait, [argument tokens], {associated type: tokens})] from the `where` clause
+    if world.ctx is not None and world.ctx.groups[0] in GROUPS4:
+        for g, bs in (getattr(pinfo, "where_bounds", None) or {}).items():
+            if g not in tvars:
+                continue
+            for bt in bs:
+                if bt[0] not in world.trait_info:
+                    continue
+                info = world.trait_info[bt[0]]
+                args, binds = [], {}
+                if len(bt) > 1:
+                    if bt[1] != "<" or bt[-1] != ">":
+                        raise Reject(f"bound `{g}: {' '.join(bt)}`")
+                    d, cur, parts = 0, [], []
+                    for x in bt[2:-1]:
+                        d += x in ("<", "(", "[")
+                        d -= x in (">", ")", "]")
+                        if x == "," and d == 0:
+                            parts.append(cur)
+                            cur = []
+                        else:
+                            cur.append(x)
+                    if cur:
+                        parts.append(cur)
+                    for part in parts:
+                        if len(part) > 2 and part[1] == "=" and part[0] in info.assocs:
+                            binds[part[0]] = part[2:]
+                        else:
+                            args.append(part)
+                if len(args) != len(info.generics):
+                    raise Reject(f"bound `{g}: {' '.join(bt)}` with {len(args)} type arguments")
+                if any(b[0] == bt[0] for b in bounds.get(g, [])):
+                    raise Reject(f"two bounds `{g}: {bt[0]}<..>`")
+                bounds.setdefault(g, []).append((bt[0], args, binds))
+        # a type parameter bound by `Fn(..) -> R` / `IntoIterator<Item = X>` stands for the function type / the item list
+        for g, bs in (getattr(pinfo, "where_bounds", None) or {}).items():
+            if g in tvars and g not in (tmap or {}):
+                for bt in bs:
+                    if bt[0] in ("Fn", "FnMut", "FnOnce", "IntoIterator"):
+                        tmap = dict(tmap or {})
+                        tmap[g] = ("toks", bt)
+        # `T::Name`: the associated type `Name` of the ONE bound trait of `T` that has it: what the bound binds it to
+        # (`Name = Ty`), else a further type parameter `T_Name` of the definition
+        for g, bs in bounds.items():
+            for tn, _, binds in bs:
+                for an in world.trait_info[tn].assocs:
+                    if (g, an) in tr.proj:
+                        raise Reject(f"`{g}::{an}` is an associated type of two bound traits")
+                    tr.proj[(g, an)] = ("toks", binds[an]) if an in binds else ("tvar", f"{g}_{an}")
     if tmap:
         base_resolve = tr.ty
 
@@ -4806,13 +5677,17 @@ def compile_fn(world, parsed, toks, cname, self_ty, lean_name, tmap=None, tvars=
             v = tr.t[tr.i]
             if v in tmap and tr.t[tr.i + 1] not in ("<", "::"):
                 tr.i += 1
+                if tmap[v][0] == "toks":      # (fourth file) a `Fn(..)` / `IntoIterator<..>` bound: resolved on first use
+                    sub = TypeResolver(world, self_ty, tvars, assoc)
+                    sub.proj, sub.proj_tvars = tr.proj, tr.proj_tvars
+                    tmap[v] = sub.resolve(tmap[v][1])
                 return tmap[v]
             return base_resolve()
         tr.ty = ty_with_map
     ptys, mutparam = [], None
     for j, (p, mut, tt) in enumerate(params):
         try:
-            if tt[:2] == ["&", "mut"] and world.ctx is not None and world.ctx.groups[0] in GROUPS3:
+            if tt[:2] == ["&", "mut"] and world.ctx is not None and world.ctx.groups[0] in GROUPS34:
                 # `x: &mut T`: state passing on the parameter, as for `&mut self`: the fn returns the new `x` with its result
                 if mutparam is not None or mode in ("mut", "ownmut"):
                     raise Reject("more than one `&mut` parameter / a `&mut` parameter next to `&mut self`")
@@ -4830,15 +5705,19 @@ def compile_fn(world, parsed, toks, cname, self_ty, lean_name, tmap=None, tvars=
     if sum(1 for j in range(len(vals) - 2) if vals[j:j + 3] == ["Utc", "::", "now"]) > 1:
         raise Reject("`Utc::now()` is read more than once (the wall clock is ONE explicit parameter per function)")
     c = Compiler(world, self_ty, mode, ret, idents, tr)
+    c.bounds = bounds
     c.mutparam = ptys[mutparam][0] if mutparam is not None else None
     c.tr_env_ty = ptys[mutparam][2] if mutparam is not None else None
     for g, wt in (where_into or {}).items():
         if g in tvars:
             tgt = tr.resolve(wt)
             x = f"{g}_into"
-            if x in world.conv_ops and world.conv_ops[x] != (g, tgt):
+            if x in world.conv_ops and world.conv_ops[x] != (("tvar", g), tgt) and not (world.ctx is not None and world.ctx.groups[0] in GROUPS4):
                 raise Reject(f"two different `{g}: Into<..>` bounds in the translated code (the conversion parameter `{x}` would clash)")
             c.into_bounds[g] = tgt
+    for g, srcs in (getattr(pinfo, "where_from", None) or {}).items():
+        if g in tvars and world.ctx is not None and world.ctx.groups[0] in GROUPS4:
+            c.from_bounds[g] = [tr.resolve(wt) for wt in srcs]
     env = {}
     if mode != "none":
         env["self"] = Var(self_ty, mode in ("mut", "ownmut"), "self")
@@ -4851,6 +5730,7 @@ def compile_fn(world, parsed, toks, cname, self_ty, lean_name, tmap=None, tvars=
     for t in ([self_ty] if mode != "none" else []) + [t for _, _, t in ptys] + [ret]:
         tvars_of(t, used)
     sig = [f"{{{g} : Type}} [DecidableEq {g}]" for g in tvars if g in used]
+    sig += [f"{{{g} : Type}} [DecidableEq {g}]" for g in tr.proj_tvars]        # (fourth file) unbound associated types `T_Name`
     for p, _, _ in ptys:
         if p in world.externs:
             raise Reject(f"parameter `{p}` shadows the extern function `{p}`")
@@ -4865,7 +5745,7 @@ def compile_fn(world, parsed, toks, cname, self_ty, lean_name, tmap=None, tvars=
     else:
         rt = ty_lean(ret)
     out = f"def {lean_name} " + " ".join(sig) + f" : {rt} :=\n{text}"
-    fn = Fn(lean_name, mode, self_ty, [(p, t) for p, _, t in ptys], ret, [g for g in tvars if g in used], c.externs)
+    fn = Fn(lean_name, mode, self_ty, [(p, t) for p, _, t in ptys], ret, [g for g in tvars if g in used] + list(tr.proj_tvars), c.externs)
     fn.mutparam = mutparam
     return out, fn
 
@@ -4886,6 +5766,8 @@ def translate_trait(world, text, raw, name):
     b = match_brace(text, j) + 1
     sha = hashlib.sha256(raw[a:b].encode()).hexdigest()[:16]
     line = raw.count("\n", 0, a) + 1
+    if world.ctx is not None and world.ctx.groups[0] in GROUPS4:
+        return translate_trait4(world, text, a, j, b, name), sha, line
     if re.search(r"\btrait\s+%s\s*<" % re.escape(name), text[a:j]):
         raise Reject(f"generic trait `{name}`")
     body = text[j + 1:b - 1]
@@ -4920,6 +5802,90 @@ def translate_trait(world, text, raw, name):
     if dropped:
         note += "; not translated: " + ", ".join(f"{n} ({why})" for n, why in dropped.items())
     return note + "\n" + out, sha, line
+
+
+class TraitInfo:
+    """a trait of the fourth file: type parameters, associated types (in declaration order) and, per method, its receiver mode
+    (`ref` / `mut`), its own type parameters, their `From` bounds, parameter types and result type -- all in terms of the type
+    variables `Self`, the trait's parameters, the names of its associated types and the method's parameters"""
+
+    def __init__(self, name, generics, assocs, methods):
+        self.name, self.generics, self.assocs, self.methods = name, generics, assocs, methods
+
+
+def translate_trait4(world, text, a, j, b, name):
+    """(fourth file) `trait Name<P..> { type A; fn m<K>(&self | &mut self, x: X) -> R where P: From<K>; .. }` -> the Lean structure
+    `Name (Self : Type) (P.. : Type) (A.. : Type)` with one field per method whose signature is in the accepted types:
+        `&self`      m : Self → X → R
+        `&mut self`  m : Self → X → Self × R          (state passing; `Self` alone for `R = ()`)
+        `<K>`        m : {K : Type} → [DecidableEq K] → (K → P) → ..   (type parameters of the method; one explicit conversion per
+                     `P: From<K>` bound of its `where` clause, supplied by the caller)
+    Associated types are further type parameters of the record (after the trait's own).  Methods with other receivers /
+    untranslatable signatures are dropped and recorded; default bodies are ignored (an impl may override them)."""
+    hp = Parser(tokenize(text[a:j] + "{"))
+    hp.eat("trait")
+    hp.ident()
+    gs = hp.generics()
+    body = text[j + 1:b - 1]
+    assocs = []
+    for m in re.finditer(r"\btype\s+(\w+)\s*(:[^;=]*)?;", body):
+        if depth_at(body, 0, m.start()) == 0:
+            assocs.append(m.group(1))
+    if len(set(gs + assocs + ["Self"])) != len(gs) + len(assocs) + 1:
+        raise Reject(f"trait `{name}`: a type parameter and an associated type share a name")
+    methods, dropped = {}, {}
+    for m in re.finditer(r"\bfn\s+(\w+)", body):
+        if depth_at(body, 0, m.start()) != 0:
+            continue
+        k = m.start()
+        e = k
+        while e < len(body) and body[e] not in "{;":
+            e += 1
+        sig = body[k:e] + " {"
+        try:
+            mp = Parser(tokenize(sig))
+            n, mgs, mode, params, ret_toks, _ = mp.fn(sig_only=True)
+            if mode not in ("ref", "mut"):
+                raise Reject("receiver other than `&self` / `&mut self`")
+            if set(mgs) & set(gs + assocs + ["Self"]):
+                raise Reject("a type parameter of the method shadows one of the trait")
+            tr = TypeResolver(world, ("tvar", "Self"), gs + assocs + mgs, {x: [x] for x in assocs})
+            frm = {}
+            for g, srcs in mp.where_from.items():
+                if g not in gs + assocs + mgs:
+                    raise Reject(f"`From` bound on `{g}`")
+                frm[g] = [tr.resolve(t) for t in srcs]
+            methods[n] = dict(mode=mode, gs=list(mgs), frm=frm, ptys=[tr.resolve(tt) for _, _, tt in params],
+                              rt=tr.resolve(ret_toks) if ret_toks else UNIT)
+        except Reject as ex:
+            dropped[m.group(1)] = str(ex)
+    if not methods:
+        raise Reject(f"trait `{name}` has no method with a translatable signature" + "".join(f"; {n}: {why}" for n, why in dropped.items()))
+    if name in world.lean_names:
+        raise Reject(f"name clash: `{name}` is generated twice")
+    world.lean_names.add(name)
+    world.trait_info[name] = TraitInfo(name, gs, assocs, methods)
+    world.traits[name] = {n: (md["ptys"], md["rt"]) for n, md in methods.items()}
+    fields = ""
+    for n, md in methods.items():
+        parts = []
+        for g in md["gs"]:
+            parts += [f"{{{g} : Type}}", f"[DecidableEq {g}]"]
+        for g, srcs in md["frm"].items():
+            parts += [f"({ty_lean(u)} → {g})" for u in srcs]
+        parts += ["Self"] + [ty_atom(t) for t in md["ptys"]]
+        if md["mode"] == "mut":
+            parts.append("Self" if md["rt"] == UNIT else f"Self × {ty_lean(md['rt'])}")
+        else:
+            parts.append(ty_lean(md["rt"]))
+        fields += f"  {lean_id(n)} : " + " → ".join(parts) + "\n"
+    out = f"structure {name} (Self : Type)" + "".join(f" ({g} : Type)" for g in gs + assocs) + f" where\n{fields}".rstrip("\n")
+    note = ("-- a trait as the record of its methods (type parameters: Self, the trait's own, its associated types): a call `x.m(..)` on a "
+            "value of a type parameter `T` is `T_%s.m x ..` of an explicit parameter `T_%s : %s T ..` (nothing is assumed about the "
+            "implementation); `&mut self` methods return the new `Self` with their result" % (name, name, name))
+    if dropped:
+        note += "; not translated: " + ", ".join(f"{n} ({why})" for n, why in dropped.items())
+    return note + "\n" + out
 
 
 def translate_alias(world, text, raw, name):
@@ -4967,7 +5933,8 @@ def translate(world, text, raw, container, kind, name, opts, loc=None):
         return translate_trait(world, text, raw, name)
     if kind == "alias":
         return translate_alias(world, text, raw, name)
-    src_kind = {"opaque": opts.get("item", "struct"), "derive_default": "struct", "derive_new": "struct", "extern": "fn"}.get(kind, kind)
+    src_kind = {"opaque": opts.get("item", "struct"), "derive_default": "struct", "derive_new": "struct", "extern": "fn",
+                "abstract": opts.get("item", "struct")}.get(kind, kind)
     assoc_span = None
     if loc is not None:
         a, b, igs, sty_toks, assoc_span = loc
@@ -4996,6 +5963,12 @@ def translate(world, text, raw, container, kind, name, opts, loc=None):
             if self_ty[0] not in ("struct", "enum"):
                 raise Reject(f"`{container}`: impl of {ty_rust(self_ty)}")
             cname = self_ty[1]
+    if kind == "abstract":
+        if name in world.lean_names or name in world.abstract:
+            raise Reject(f"name clash: `{name}` is declared twice")
+        world.abstract.add(name)
+        return (f"-- abstract: NOT translated; `{name}` (its type arguments ignored) is a type PARAMETER `{{{name} : Type}}` of every "
+                "definition below that mentions it: its values are only stored and moved", sha, line)
     if kind == "extern":
         n, gs, mode, params, ret_toks, _ = p.fn(sig_only=True)
         if gs or mode != "none" or container:
@@ -5083,10 +6056,22 @@ def translate(world, text, raw, container, kind, name, opts, loc=None):
                 fields.append((f, t))
         if not fields and raw_fields:
             raise Reject(f"struct `{n}` has no translated field")
+        if opts.get("as"):
+            if world.ctx is None or world.ctx.groups[0] not in GROUPS4:
+                raise Reject("item option `as` outside the fourth file")
+            world.renames[n] = opts["as"]
+            world.item_file[opts["as"]] = world.ctx.rel
+            n = opts["as"]
         if n in world.lean_names:
             raise Reject(f"name clash: `{n}` is generated twice")
         world.lean_names.add(n)
         world.structs[n] = Struct(n, gs, tup, fields, dropped)
+        world.structs[n].defaults = dict(p.generic_defaults)
+        world.structs[n].derives = []
+        for at in attributes_before(text, a)[1]:
+            m = re.fullmatch(r"#\[\s*derive\s*\((.*)\)\s*\]", at, re.S)
+            if m:
+                world.structs[n].derives += [x.strip().split("::")[-1].strip() for x in m.group(1).split(",") if x.strip()]
         out = f"structure {n}" + "".join(f" ({g} : Type)" for g in gs) + " where\n" \
             + "".join(f"  {lean_id(f)} : {ty_lean(t)}\n" for f, t in fields) + "  deriving DecidableEq, Repr"
         if not fields:
@@ -5129,7 +6114,7 @@ def translate(world, text, raw, container, kind, name, opts, loc=None):
                 derived += [x.strip().split("::")[-1].strip() for x in m.group(1).split(",") if x.strip()]
         world.enums[n].from_variants = {v for v, shape, fs in variants if shape == "tuple" and len(fs) == 1
                                         and (v in p.enum_from or "From" in derived)}
-        if world.ctx is not None and world.ctx.groups[0] in GROUPS3:       # (the first two files keep their committed form)
+        if world.ctx is not None and world.ctx.groups[0] in GROUPS34:       # (the first two files keep their committed form)
             VARIANT_NAMES.update(v for v, _, _ in variants)
         out = f"inductive {n}" + "".join(f" ({g} : Type)" for g in egs) + " where\n" + "".join(
             f"  | {v}" + "".join(f" ({lean_id(f)} : {ty_lean(t)})" for f, t in fs) + "\n" for v, _, fs in variants) + "  deriving DecidableEq, Repr"
@@ -5142,6 +6127,16 @@ def translate(world, text, raw, container, kind, name, opts, loc=None):
         return out, sha, line
     parsed = p.fn()
     n, gs = parsed[0], parsed[1]
+    shadow = [g for g in gs if g in world.structs or g in world.enums or g in world.opaque or g in world.abstract]
+    if shadow and world.ctx is not None and world.ctx.groups[0] in GROUPS4:
+        # a type parameter of the fn that is named like a translated type (`fn process_with_audit<Event, Engine>`): inside
+        # the item EVERY occurrence of that name is the parameter, so it is renamed `<name>T` throughout the item
+        if any((k, v + "T") in toks or v + "T" in world.structs for k, v in toks if k == "id" and v in shadow):
+            raise Reject(f"type parameter `{shadow[0]}` shadows a translated type and `{shadow[0]}T` is in use as well")
+        toks = [(k, v + "T" if k == "id" and v in shadow else v) for k, v in toks]
+        p = Parser(toks)
+        parsed = p.fn()
+        n, gs = parsed[0], parsed[1]
     assoc = {}
     if assoc_span is not None:
         clo, chi = assoc_span
@@ -5171,7 +6166,7 @@ def translate(world, text, raw, container, kind, name, opts, loc=None):
         # type parameters of a METHOD stay parameters (like those of its impl); bounds in `where` only name operators
         if clash:
             raise Reject(f"type parameter `{clash[0]}` of the method shadows another type")
-        out, fn = compile_fn(world, parsed, toks, cname, self_ty, lname, None, list(igs) + list(gs), assoc)
+        out, fn = compile_fn(world, parsed, toks, cname, self_ty, lname, None, list(igs) + list(gs), assoc, None, p)
         world.fns[key] = fn
         return with_attr(world, out), sha, line
     if gs:
@@ -5181,9 +6176,11 @@ def translate(world, text, raw, container, kind, name, opts, loc=None):
         abstract = None
         if not clash:
             try:
-                abstract = compile_fn(world, parsed, toks, cname, self_ty, lname, None, list(igs) + list(gs), assoc, p.where_into)
+                abstract = compile_fn(world, parsed, toks, cname, self_ty, lname, None, list(igs) + list(gs), assoc, p.where_into, p)
             except Reject:
                 abstract = None
+                if world.ctx is not None and world.ctx.groups[0] in GROUPS4 and (len(gs) != 1 or parsed[3] and parsed[3][0][2][:2] == ["&", "mut"]):
+                    raise            # (no second reading for such a fn: report why the first failed)
         if abstract is not None:
             out, fn = abstract
             world.fns[key] = fn
@@ -5200,14 +6197,14 @@ def translate(world, text, raw, container, kind, name, opts, loc=None):
         compile_fn(world, parsed, toks, cname, self_ty, lname + "_check", {gs[0]: DEC}, igs)
         world.generic_fns[key] = (parsed, lname, compile_instance)
         return (f"-- generic over `{gs[0]}`: instantiated below at the types it is called with", sha, line)
-    out, fn = compile_fn(world, parsed, toks, cname, self_ty, lname, None, igs, assoc)
+    out, fn = compile_fn(world, parsed, toks, cname, self_ty, lname, None, igs, assoc, None, p)
     world.fns[key] = fn
     return with_attr(world, out), sha, line
 
 
 def main():
     argv = sys.argv[1:]
-    all_groups = GROUPS + GROUPS2 + GROUPS3
+    all_groups = GROUPS + GROUPS2 + GROUPS3 + GROUPS4
     required = set(all_groups)
     to_stdout = False
     while argv:
@@ -5226,12 +6223,12 @@ def main():
             sys.exit(__doc__)
     world = World()
     # one (sections, header) pair per generated file; an item goes to the file of its FIRST group
-    sections, header = {1: [], 2: [], 3: []}, {1: [], 2: [], 3: []}
+    sections, header = {1: [], 2: [], 3: [], 4: []}, {1: [], 2: [], 3: [], 4: []}
     errors, failed_groups = [], set()
     cur = None
     for group, rel, container, kind, name, opts in MACHINES:
         groups = group.split("+")
-        fno = 1 if groups[0] in GROUPS else 2 if groups[0] in GROUPS2 else 3
+        fno = 1 if groups[0] in GROUPS else 2 if groups[0] in GROUPS2 else 3 if groups[0] in GROUPS3 else 4
         shown = f"{rel} :: " + (f"{container} :: " if container else "") + f"{kind} {name}"
         world.pending, world.aux_header = [], []
         world.ctx = Ctx(groups, rel, container)
@@ -5243,7 +6240,7 @@ def main():
         except Reject as e:
             if kind == "fn" and container:
                 base = re.sub(r"<.*", "", container.split(" for ")[-1].split()[-1])
-                world.failed.add((base, name))
+                world.failed.add((world.rn(base), name))
             if kind in ("derive_default", "derive_new"):
                 world.failed.add((name, "default" if kind == "derive_default" else "new"))
             for g in groups:
@@ -5266,7 +6263,8 @@ def main():
         where = (container + " :: " if container else "") + f"{kind} {name}"
         for inst in world.pending:
             sections[fno].append("\n" + inst)
-        if out.startswith("-- generic") or out.startswith("-- extern") or out.startswith("-- already") or out.startswith("-- alias"):
+        if out.startswith("-- generic") or out.startswith("-- extern") or out.startswith("-- already") or out.startswith("-- alias") \
+                or out.startswith("-- abstract"):
             sections[fno].append(f"\n-- `{where}` ({rel}:{line}) {out[3:]}")
         else:
             lead = ""
@@ -5308,12 +6306,24 @@ def main():
              + "\n".join(header[3]) + "\n-/\nset_option linter.unusedVariables false   -- e.g. a binder that only a log macro reads\n"
              "namespace BarterModel.Generated.Machines\n\n" + PRELUDE3 + "\n".join(sections[3])
              + "\n\nend BarterModel.Generated.Machines\n")
+    text4 = ("import BarterModel.Generated.Machines3\n"
+             "/-\nGENERATED FILE -- DO NOT EDIT.  Fourth output file of tools/rust2lean_sm.py (same namespace as, and importing,\n"
+             "Generated/Machines3.lean): code that walks `Vec` / slice / `IndexMap` contents with ITERATOR chains, read through the\n"
+             "explicit iterator vocabulary of the prelude below (an iterator is the LIST of the items it will yield).  Rewritten\n"
+             "from the Rust source on every run of `./check` for the properties whose props/Cxx.py names a group of this file in\n"
+             "PREBUILD; the committed copy is the output for the pinned tree.  The agreement with the hand-written models is\n"
+             "proved in Lemmas/KernelsAgree/{" + ",".join(AGREE4) + "}.lean (vocabulary lemmas: IterVocab.lean).\n\n"
+             "Source items (file :: item, line, hash of the item's source text):\n"
+             + "\n".join(header[4]) + "\n-/\nset_option linter.unusedVariables false   -- e.g. a binder that only a log macro reads\n"
+             "namespace BarterModel.Generated.Machines\n\n" + PRELUDE4 + "\n".join(sections[4])
+             + "\n\nend BarterModel.Generated.Machines\n")
     if to_stdout:
         sys.stdout.write(text1)
         sys.stdout.write(text2)
         sys.stdout.write(text3)
+        sys.stdout.write(text4)
     else:
-        for path, text in ((OUT, text1), (OUT2, text2), (OUT3, text3)):
+        for path, text in ((OUT, text1), (OUT2, text2), (OUT3, text3), (OUT4, text4)):
             os.makedirs(os.path.dirname(path), exist_ok=True)
             old = open(path, encoding="utf-8").read() if os.path.exists(path) else None
             if old != text:
@@ -5330,7 +6340,7 @@ def main():
     bad = failed_groups & required
     n_bad = len({m for _, m in errors})
     print(f"rust2lean_sm: {len(MACHINES) - n_bad}/{len(MACHINES)} items translated from {REPO} -> {os.path.relpath(OUT, VERIF)}, "
-          f"{os.path.relpath(OUT2, VERIF)}, {os.path.relpath(OUT3, VERIF)}" + (f"; FAILED in required group(s): {', '.join(sorted(bad))}" if bad else ""))
+          f"{os.path.relpath(OUT2, VERIF)}, {os.path.relpath(OUT3, VERIF)}, {os.path.relpath(OUT4, VERIF)}" + (f"; FAILED in required group(s): {', '.join(sorted(bad))}" if bad else ""))
     return 1 if bad else 0
 
 
